@@ -4,8 +4,8 @@ from __future__ import annotations
 import ast
 
 from ..core import Ctx
-from ..match import arg, call_name, calls, facts_at, local_defs, resolve, single_def, stores
-from ..model import AnalysisError, ClassInfo, FuncInfo, ancestors, chain, const_value, enclosing_stmt, norm, parent, strip_cast, walk_no_nested
+from ..match import arg, call_name, calls, expr_context_facts, fact_of, facts_at, local_defs, rchain, resolve, single_def, stores
+from ..model import NOCONST, AnalysisError, ClassInfo, FuncInfo, ancestors, chain, clone, const_value, enclosing_stmt, norm, parent, set_parents, strip_cast, walk_no_nested
 
 LEVEL = "other"
 EXPLANATION = (
@@ -17,7 +17,8 @@ EXPLANATION = (
     "ensure_future results are registered or awaited; TaskManager gates (no registration after shutdown, no duplicate "
     "live name, replace_task re-registers only in the old task's done-callback, shutdown flag before cancellation); "
     "Overlay.unload removes the listener before shutting tasks down; _deliver_later re-checks registration; an entry a removal takes out of a "
-    "table of open resources is closed without suspending in between (unload only sees what is still in the table); the low-level runners await "
+    "table of open resources is closed without suspending in between (unload only sees what is still in the table), and an entry taken out of a "
+    "table of TaskManager objects has its task manager shut down on every normal path; the low-level runners await "
     "the scheduled step itself and nothing in task-manager code is shielded from cancellation. "
     "'At whatever moment' (schedules) is not explored beyond these orderings."
 )
@@ -76,7 +77,15 @@ def _called_for_every_key(fi: FuncInfo, call: ast.Call, key: ast.AST | None, tab
     conditional = False
     cur: ast.AST = call
     for a in ancestors(call):
-        if isinstance(a, (ast.FunctionDef, ast.AsyncFunctionDef, ast.Lambda)):
+        if isinstance(a, ast.Lambda):
+            # map(lambda key: CALL(key, ..), <snapshot of the table>) whose result is consumed
+            m = parent(a)
+            ps = [x.arg for x in a.args.posonlyargs + a.args.args]
+            if isinstance(m, ast.Call) and chain(m.func) == "map" and len(m.args) == 2 and m.args[0] is a and not m.keywords and ps == [key.id] and a.body is cur:
+                tab, snap, kind = _enumerated_table(fi, m.args[1])
+                return tab == table and kind == "keys" and not conditional and (snap or not need_snapshot) and _consumed_unconditionally(m)
+            return False
+        if isinstance(a, (ast.FunctionDef, ast.AsyncFunctionDef)):
             break
         if isinstance(a, ast.For):
             tab, snap, kind = _enumerated_table(fi, a.iter)
@@ -102,6 +111,46 @@ def _called_for_every_key(fi: FuncInfo, call: ast.Call, key: ast.AST | None, tab
             conditional = True
         cur = a
     return False
+
+
+def _calls_with_lambdas(fi: FuncInfo, pattern=None) -> list[ast.Call]:
+    """calls in fi including those in the bodies of lambdas written in fi (`map(lambda k: self.m(k), ..)`), not those in nested defs"""
+    out = list(calls(fi, pattern))
+    todo = [x for x in walk_no_nested(fi.node) if isinstance(x, ast.Lambda) and x is not fi.node]
+    while todo:
+        lam = todo.pop()
+        out += calls(lam.body, pattern)
+        if isinstance(lam.body, ast.Call) and lam.body not in out and (pattern is None or chain(lam.body.func) == pattern or (chain(lam.body.func) or "").endswith("." + str(pattern))):
+            out.append(lam.body)
+        todo += [x for x in walk_no_nested(lam.body) if isinstance(x, ast.Lambda)]
+    return out
+
+
+def _consumed_unconditionally(it: ast.AST) -> bool:
+    """the lazy iterable `it` (a map / generator expression) is run to its end where it stands: `*it`, list(it), gather(*it), x.extend(it) - not under a condition"""
+    cur = it
+    used = False
+    for a in ancestors(it):
+        if isinstance(a, (ast.FunctionDef, ast.AsyncFunctionDef, ast.Lambda)):
+            break
+        if isinstance(a, ast.Starred) and a.value is cur:
+            used = True
+        elif isinstance(a, ast.Call) and cur in a.args and (chain(a.func) in ("list", "tuple", "set", "sorted") or call_name(a) in ("extend", "gather", "wait", "update")):
+            used = True
+        elif isinstance(a, (ast.If, ast.IfExp, ast.While, ast.For, ast.AsyncFor, ast.Match, ast.ExceptHandler, *_COMPREHENSIONS)):
+            return False
+        elif isinstance(a, ast.BoolOp) and a.values[0] is not cur:
+            return False
+        cur = a
+    return used
+
+
+def _mapped_over_every_key(fi: FuncInfo, m: ast.Call, method: str, table: str) -> bool:
+    """`map(self.<method>, <snapshot of table>)` consumed where it stands: the bound method is called once for every key"""
+    if not (chain(m.func) == "map" and len(m.args) == 2 and not m.keywords and rchain(fi, m.args[0]) == f"self.{method}"):
+        return False
+    tab, snap, kind = _enumerated_table(fi, m.args[1])
+    return tab == table and kind == "keys" and snap and _consumed_unconditionally(m)
 
 
 def _carries(expr: ast.AST | None, names: set[str]) -> bool:
@@ -142,6 +191,9 @@ def _value_flow(fi: FuncInfo, k: ast.Call) -> tuple[bool, set[str], list[ast.AST
             cur = p
         elif isinstance(p, (ast.ListComp, ast.SetComp, ast.GeneratorExp)) and p.elt is cur:
             cur = p
+        elif isinstance(p, ast.Lambda) and p.body is cur and isinstance(parent(p), ast.Call) and chain(parent(p).func) == "map" and parent(p).args[0] is p:
+            cur = parent(p)           # map(lambda x: K(x), ..) yields the values of K
+            holders.append(p)
         elif isinstance(p, ast.Call) and cur in p.args:
             nm = call_name(p)
             if nm in ("gather", "wait") and _awaited(p):
@@ -240,6 +292,1198 @@ def _unloads_every_bootstrapper(fi: FuncInfo, call: ast.Call, coll: str = "self.
     return False
 
 
+# ----------------------------------------------------------------------------------- path-sensitive feasibility
+# Abstract values: a frozenset of possibilities.  ("k", c) = the constant c, "T" = some truthy object, "F" = some falsy object that is not None,
+# ("t", (v0, v1, ..)) = a tuple display of abstract values.
+_NONE = ("k", None)
+_TRUE, _FALSE = ("k", True), ("k", False)
+_ANY = frozenset({_NONE, "F", "T"})
+_BOOL = frozenset({_TRUE, _FALSE})
+_OBJ = frozenset({"F", "T"})
+_PURE_BOOL_CALLS = {"isinstance", "issubclass", "callable", "hasattr", "any", "all", "iscoroutinefunction", "iscoroutine", "isfuture"}
+_OBJ_CALLS = {"len", "int", "str", "list", "tuple", "dict", "set", "frozenset", "sorted", "repr", "float", "bytes", "range", "enumerate", "zip", "map",
+              "iter", "id", "hash", "type", "reversed", "min", "max", "sum", "abs", "round", "hexlify", "unhexlify"}
+_ALWAYS_TRUE_CTORS = {"Future", "Task", "Event", "Lock", "RLock", "Semaphore", "object"}
+
+
+def _is_true(x) -> bool:
+    if x == "T":
+        return True
+    if x == "F":
+        return False
+    if x[0] == "k":
+        return bool(x[1])
+    return len(x[1]) > 0
+
+
+def _known(vs) -> bool:
+    return bool(vs) and all(isinstance(x, tuple) and x[0] == "k" for x in vs)
+
+
+def _bools(outcomes) -> frozenset:
+    return frozenset(_TRUE if o else _FALSE for o in outcomes)
+
+
+class _Feas:
+    """
+    Which CFG nodes of `fi` can be reached when some atoms have an assumed, stable truth value?
+    `assume(Fact) -> bool | None` gives the truth of the POSITIVE relation (op, left, right) of a fact, or None when nothing is assumed about it.
+    Unlike a cut of contradicting condition edges (match.unreachable_assuming) this follows the values of local decision variables
+    (`refusal = None ... refusal = succeed(None) ... if refusal is not None: return`), tags and tuples returned by helpers, and the results of
+    calls to helpers of the same object / module (analysed with their parameters bound to the caller's arguments).  Everything it does not
+    understand evaluates to 'any value', i.e. it can only make MORE nodes reachable than really are.
+    """
+
+    LIMIT = 40000
+    MAX_DEPTH = 3
+
+    def __init__(self, ctx: Ctx, fi: FuncInfo, assume, *, bind: dict | None = None, penv: dict | None = None, depth: int = 0,
+                 memo: dict | None = None, stack: tuple = ()) -> None:
+        self.ctx, self.repo, self.fi, self.assume = ctx, ctx.repo, fi, assume
+        self.bind = dict(bind or {})
+        self.depth = depth
+        self.memo = memo if memo is not None else {}
+        self.stack = (*stack, id(fi.node))
+        self.cfg = ctx.cfg(fi)
+        self.params = set(fi.params())
+        self.stored = {n.id for n in walk_no_nested(fi.node) if isinstance(n, ast.Name) and isinstance(n.ctx, (ast.Store, ast.Del))}
+        self.stored |= {n.name for n in walk_no_nested(fi.node) if isinstance(n, ast.ExceptHandler) and n.name}
+        self.stored |= {n.name for n in walk_no_nested(fi.node) if isinstance(n, (ast.FunctionDef, ast.AsyncFunctionDef, ast.ClassDef)) and n is not fi.node}
+        self.init_env = {k: v for k, v in (penv or {}).items() if v != _ANY}
+        self.tracked = self.stored | set(self.init_env)
+        self.returns: set = set()
+        self.seen: dict = {}
+
+    # ------------------------------------------------------------ exploration
+    def explore(self, starts=None, *, cut_nodes=(), follow_exc: bool = True) -> dict:
+        """{node: {envkey: env}} for every (node, abstract environment) that is feasible."""
+        cut = set(cut_nodes)
+        seen: dict = {}
+        todo = list(starts) if starts is not None else [(self.cfg.entry, dict(self.init_env))]
+        count = 0
+        while todo:
+            node, env = todo.pop()
+            if node in cut:
+                continue
+            key = frozenset(env.items())
+            at = seen.setdefault(node, {})
+            if key in at:
+                continue
+            at[key] = env
+            count += 1
+            if count > self.LIMIT:
+                raise AnalysisError(f"undecided: too many abstract states in {self.fi.qualname}")
+            if node is self.cfg.exit:
+                self.returns |= env.get("$ret", frozenset({_NONE}))
+                continue
+            for nxt, env2 in self._step(node, env, follow_exc):
+                todo.append((nxt, env2))
+        self.seen = seen
+        return seen
+
+    def _step(self, node, env: dict, follow_exc: bool) -> list:
+        a = node.ast
+        out = []
+        if node.kind == "cond":
+            post = dict(env)
+            v = self.ev(a, post)
+            for nxt, lab in node.succ:
+                if lab == "exc":
+                    if follow_exc:
+                        out.append((nxt, env))
+                elif lab is True:
+                    if any(_is_true(x) for x in v):
+                        out.append((nxt, self._refine(a, True, post)))
+                elif lab is False:
+                    if any(not _is_true(x) for x in v):
+                        out.append((nxt, self._refine(a, False, post)))
+                else:
+                    out.append((nxt, post))
+            return out
+        post = env
+        if node.kind == "loop" and isinstance(a, (ast.For, ast.AsyncFor)):
+            for nxt, lab in node.succ:
+                if lab is True:
+                    e2 = dict(env)
+                    self._bind_target(a.target, _ANY, e2)
+                    out.append((nxt, e2))
+                elif lab != "exc" or follow_exc:
+                    out.append((nxt, env))
+            return out
+        if node.kind == "stmt" and a is not None:
+            post = self._exec(a, env)
+            if post is None:                 # the statement calls a helper that never returns normally (it always raises)
+                return [(nxt, env) for nxt, lab in node.succ if lab == "exc" and follow_exc]
+        elif node.kind == "handler" and a is not None and getattr(a, "name", None):
+            post = dict(env)
+            post[a.name] = frozenset({"T"})
+        for nxt, lab in node.succ:
+            if lab == "exc":
+                if follow_exc:
+                    out.append((nxt, env))
+            else:
+                out.append((nxt, post))
+        return out
+
+    @staticmethod
+    def _set(env: dict, name: str, v) -> None:
+        if v == _ANY:
+            env.pop(name, None)
+        else:
+            env[name] = frozenset(v)
+
+    def _bind_target(self, t: ast.AST, v, env: dict) -> None:
+        if isinstance(t, ast.Name):
+            self._set(env, t.id, v)
+        elif isinstance(t, (ast.Tuple, ast.List)):
+            n = len(t.elts)
+            if v and not any(isinstance(e, ast.Starred) for e in t.elts) and all(isinstance(x, tuple) and x[0] == "t" and len(x[1]) == n for x in v):
+                for i, e in enumerate(t.elts):
+                    self._bind_target(e, frozenset().union(*[x[1][i] for x in v]), env)
+            else:
+                for e in t.elts:
+                    self._bind_target(e.value if isinstance(e, ast.Starred) else e, _ANY, env)
+
+    def _forget_walrus(self, node: ast.AST, env: dict) -> None:
+        for x in ast.walk(node):
+            if isinstance(x, ast.NamedExpr):
+                env.pop(x.target.id, None)
+
+    def _exec(self, a: ast.AST, env: dict) -> dict | None:
+        env = dict(env)
+        if isinstance(a, ast.Assign):
+            v = self.ev(a.value, env)
+            if not v:
+                return None
+            for t in a.targets:
+                self._bind_target(t, v, env)
+        elif isinstance(a, ast.AnnAssign):
+            if a.value is not None:
+                v = self.ev(a.value, env)
+                if not v:
+                    return None
+                self._bind_target(a.target, v, env)
+        elif isinstance(a, ast.AugAssign):
+            self._forget_walrus(a.value, env)
+            self._bind_target(a.target, _ANY, env)
+        elif isinstance(a, ast.Return):
+            env["$ret"] = self.ev(a.value, env) if a.value is not None else frozenset({_NONE})
+            if not env["$ret"]:
+                return None
+        elif isinstance(a, (ast.With, ast.AsyncWith)):
+            for it in a.items:
+                self._forget_walrus(it.context_expr, env)
+                if it.optional_vars is not None:
+                    self._bind_target(it.optional_vars, _ANY, env)
+        elif isinstance(a, (ast.FunctionDef, ast.AsyncFunctionDef, ast.ClassDef)):
+            env[a.name] = frozenset({"T"})
+        elif isinstance(a, ast.Delete):
+            for t in a.targets:
+                if isinstance(t, ast.Name):
+                    env.pop(t.id, None)
+        elif isinstance(a, ast.Expr):
+            v = strip_cast(a.value)
+            inner = strip_cast(v.value) if isinstance(v, ast.Await) else v
+            if isinstance(v, ast.NamedExpr):
+                self.ev(v, env)
+            elif isinstance(inner, ast.Call) and (isinstance(inner.func, ast.Name) or chain(getattr(inner.func, "value", None)) in ("self", "cls")):
+                if not self.ev(v, env):
+                    return None
+            else:
+                self._forget_walrus(a, env)
+        elif isinstance(a, ast.expr):
+            if isinstance(self.fi.node, ast.Lambda) and a is self.fi.node.body:
+                env["$ret"] = self.ev(a, env)
+            else:
+                self._forget_walrus(a, env)
+        elif not isinstance(a, (ast.Import, ast.ImportFrom, ast.Pass, ast.Break, ast.Continue, ast.Global, ast.Nonlocal)):
+            self._forget_walrus(a, env)
+        return env
+
+    # ------------------------------------------------------------ expressions
+    def _root(self, e: ast.AST) -> ast.AST:
+        """e in the terms of the function the assumptions are about: bound parameters of a followed helper are replaced by the caller's arguments,
+        pure single-assignment locals by their value; other locals of a followed helper get a name that cannot clash."""
+        fe = self
+
+        class S(ast.NodeTransformer):
+            def __init__(self) -> None:
+                self.budget = 12
+
+            def visit_Name(self, n: ast.Name):
+                if not isinstance(n.ctx, ast.Load):
+                    return n
+                if n.id in fe.bind and n.id not in fe.stored:
+                    b = fe.bind[n.id]
+                    return clone(b) if b is not None else ast.Name(id=f"{n.id}@{fe.fi.name}", ctx=ast.Load())
+                if n.id in fe.stored and self.budget > 0:
+                    d = single_def(fe.fi, n.id)
+                    if d is not None and d[1] is None and _pure_read(d[0]):
+                        self.budget -= 1
+                        return self.visit(clone(strip_cast(d[0])))
+                if fe.depth and (n.id in fe.stored or n.id in fe.params):
+                    return ast.Name(id=f"{n.id}@{fe.fi.name}", ctx=ast.Load())
+                return n
+
+            def visit_Lambda(self, n):
+                return n
+        return S().visit(clone(e))
+
+    def _atom(self, e: ast.AST, kind: str):
+        f = fact_of(self._root(e), True)
+        v = self.assume(f)
+        if v is None:
+            return _BOOL if kind == "bool" else _ANY
+        truth = bool(v) if f.pos else not v
+        if kind == "bool":
+            return frozenset({_TRUE if truth else _FALSE})
+        return frozenset({"T"}) if truth else frozenset({_NONE, "F"})
+
+    def ev(self, e: ast.AST | None, env: dict):  # noqa: C901, PLR0911, PLR0912
+        if e is None:
+            return frozenset({_NONE})
+        e = strip_cast(e)
+        if isinstance(e, ast.Constant):
+            try:
+                hash(e.value)
+            except TypeError:
+                return _OBJ
+            return frozenset({("k", e.value)})
+        if isinstance(e, ast.Name):
+            if e.id in env:
+                return env[e.id]
+            if e.id in self.tracked:
+                return _ANY
+            if e.id in ("True", "False", "None"):
+                return frozenset({("k", {"True": True, "False": False, "None": None}[e.id])})
+            return self._atom(e, "any")
+        if isinstance(e, ast.NamedExpr):
+            v = self.ev(e.value, env)
+            self._set(env, e.target.id, v)
+            return v
+        if isinstance(e, ast.UnaryOp):
+            if isinstance(e.op, ast.Not):
+                v = self.ev(e.operand, env)
+                return _bools({not _is_true(x) for x in v})
+            c = const_value(e)
+            self._forget_walrus(e, env)
+            return frozenset({("k", c)}) if c is not NOCONST else _OBJ
+        if isinstance(e, ast.BoolOp):
+            is_and = isinstance(e.op, ast.And)
+            out: set = set()
+            for i, operand in enumerate(e.values):
+                if i:
+                    sub = dict(env)
+                    v = self.ev(operand, sub)
+                    self._forget_walrus(operand, env)
+                else:
+                    v = self.ev(operand, env)
+                if i == len(e.values) - 1:
+                    out |= v
+                    break
+                out |= {x for x in v if _is_true(x) != is_and}
+                if not any(_is_true(x) == is_and for x in v):
+                    for rest in e.values[i + 1:]:
+                        self._forget_walrus(rest, env)
+                    break
+            return frozenset(out)
+        if isinstance(e, ast.IfExp):
+            t = self.ev(e.test, env)
+            out = set()
+            if any(_is_true(x) for x in t):
+                out |= self.ev(e.body, dict(env))
+            if any(not _is_true(x) for x in t):
+                out |= self.ev(e.orelse, dict(env))
+            self._forget_walrus(e.body, env)
+            self._forget_walrus(e.orelse, env)
+            return frozenset(out)
+        if isinstance(e, ast.Compare):
+            return self._compare(e, env)
+        if isinstance(e, ast.Call):
+            return self._call(e, env, awaited=False)
+        if isinstance(e, ast.Await):
+            if isinstance(strip_cast(e.value), ast.Call):
+                return self._call(strip_cast(e.value), env, awaited=True)
+            self._forget_walrus(e, env)
+            return _ANY
+        if isinstance(e, ast.Tuple):
+            if any(isinstance(x, ast.Starred) for x in e.elts):
+                self._forget_walrus(e, env)
+                return _OBJ
+            return frozenset({("t", tuple(self.ev(x, env) for x in e.elts))})
+        if isinstance(e, (ast.List, ast.Set)):
+            self._forget_walrus(e, env)
+            return frozenset({"T"}) if any(not isinstance(x, ast.Starred) for x in e.elts) else (_OBJ if e.elts else frozenset({"F"}))
+        if isinstance(e, ast.Dict):
+            self._forget_walrus(e, env)
+            return frozenset({"T"}) if any(k is not None for k in e.keys) else (_OBJ if e.keys else frozenset({"F"}))
+        if isinstance(e, ast.Lambda):
+            return frozenset({"T"})
+        if isinstance(e, (ast.JoinedStr, ast.BinOp, ast.ListComp, ast.SetComp, ast.DictComp, ast.GeneratorExp)):
+            self._forget_walrus(e, env)
+            return _OBJ
+        if isinstance(e, (ast.Attribute, ast.Subscript)):
+            self._forget_walrus(e, env)
+            return self._atom(e, "any")
+        self._forget_walrus(e, env)
+        return _ANY
+
+    def _compare(self, e: ast.Compare, env: dict):
+        if len(e.ops) != 1:
+            self._forget_walrus(e, env)
+            return _BOOL
+        op, l, r = e.ops[0], e.left, e.comparators[0]
+        decided = self.assume(fact_of(self._root(e), True)) if not isinstance(strip_cast(l), ast.NamedExpr) else None
+        if decided is not None:
+            f = fact_of(e, True)
+            self._forget_walrus(e, env)
+            return frozenset({_TRUE if (bool(decided) if f.pos else not decided) else _FALSE})
+        if isinstance(op, (ast.Is, ast.IsNot, ast.Eq, ast.NotEq)):
+            lv, rv = self.ev(l, env), self.ev(r, env)
+            pos = isinstance(op, (ast.Is, ast.Eq))
+            for a, b in ((lv, rv), (rv, lv)):
+                if b == frozenset({_NONE}):
+                    outs = set()
+                    if _NONE in a:
+                        outs.add(pos)
+                    if a - {_NONE}:
+                        outs.add(not pos)
+                    return _bools(outs)
+            if _known(lv) and _known(rv):
+                return _bools({(x[1] == y[1]) == pos for x in lv for y in rv})
+            for a, b in ((lv, rv), (rv, lv)):
+                # an unknown object may or may not equal a constant of the same truthiness; it never equals one of the other truthiness
+                if _known(b) and all(x in ("T", "F") or x[0] == "k" for x in a):
+                    outs = set()
+                    for x in a:
+                        for y in b:
+                            if x in ("T", "F"):
+                                outs.add(not pos)
+                                if _is_true(x) == _is_true(y) and y[1] is not None:
+                                    outs.add(pos)
+                            else:
+                                outs.add((x[1] == y[1]) == pos)
+                    return _bools(outs)
+            return _BOOL
+        if isinstance(op, (ast.In, ast.NotIn)) and isinstance(r, (ast.Tuple, ast.List, ast.Set)) and all(isinstance(x, ast.Constant) for x in r.elts):
+            lv = self.ev(l, env)
+            pos = isinstance(op, ast.In)
+            if _known(lv):
+                consts = [x.value for x in r.elts]
+                return _bools({(x[1] in consts) == pos for x in lv})
+            return _BOOL
+        self._forget_walrus(e, env)
+        return _BOOL
+
+    def _refine(self, test: ast.AST, pol: bool, env: dict) -> dict:
+        env = dict(env)
+        t = strip_cast(test)
+
+        def local(x):
+            x = strip_cast(x)
+            if isinstance(x, ast.NamedExpr):
+                return x.target.id
+            return x.id if isinstance(x, ast.Name) and x.id in self.tracked else None
+        nm = local(t)
+        if nm is not None:
+            cur = env.get(nm, _ANY)
+            self._set(env, nm, frozenset(x for x in cur if _is_true(x) == pol))
+            return env
+        if isinstance(t, ast.Compare) and len(t.ops) == 1:
+            op, l, r = t.ops[0], t.left, t.comparators[0]
+            for a, b in ((l, r), (r, l)):
+                nm = local(a)
+                if nm is None:
+                    continue
+                cur = env.get(nm, _ANY)
+                if isinstance(op, (ast.Is, ast.IsNot, ast.Eq, ast.NotEq)):
+                    bv = self.ev(b, dict(env))
+                    if len(bv) != 1 or not _known(bv):
+                        continue
+                    c = next(iter(bv))
+                    same = pol if isinstance(op, (ast.Is, ast.Eq)) else not pol
+                    if same:
+                        new = {x for x in cur if x == c or (x in ("T", "F") and c[1] is not None and _is_true(x) == _is_true(c))}
+                    else:
+                        new = set(cur) - {c}
+                    self._set(env, nm, frozenset(new))
+                    return env
+                if isinstance(op, (ast.In, ast.NotIn)) and a is l and isinstance(b, (ast.Tuple, ast.List, ast.Set)) and all(isinstance(x, ast.Constant) for x in b.elts):
+                    consts = [("k", x.value) for x in b.elts]
+                    inside = pol if isinstance(op, ast.In) else not pol
+                    if inside:
+                        new = {x for x in cur if x in consts or (x in ("T", "F") and any(_is_true(x) == _is_true(c) and c[1] is not None for c in consts))}
+                    else:
+                        new = {x for x in cur if x not in consts}
+                    self._set(env, nm, frozenset(new))
+                    return env
+        return env
+
+    # ------------------------------------------------------------ calls
+    def _call(self, e: ast.Call, env: dict, awaited: bool):  # noqa: C901, PLR0911, PLR0912
+        f = fact_of(self._root(e), True)
+        v = self.assume(f)
+        if v is not None:
+            self._forget_walrus(e, env)
+            return frozenset({"T"}) if v else frozenset({_NONE, "F"})
+        fn = chain(e.func)
+        if fn == "bool" and len(e.args) == 1 and not e.keywords:
+            return _bools({_is_true(x) for x in self.ev(e.args[0], env)})
+        self._forget_walrus(e, env)
+        last = fn.rsplit(".", 1)[-1] if fn else None
+        if fn in _PURE_BOOL_CALLS:
+            return _BOOL
+        if fn in _OBJ_CALLS:
+            return _OBJ
+        if awaited and last in ("sleep", "gather", "wait", "wait_for"):
+            return _ANY
+        cls = self.repo.resolve_class_expr(self.fi.module, e.func) if isinstance(e.func, (ast.Name, ast.Attribute)) else None
+        if cls is not None:
+            return _OBJ if (cls.lookup("__bool__") or cls.lookup("__len__")) else frozenset({"T"})
+        follow = (isinstance(e.func, ast.Name) and e.func.id not in self.params and (e.func.id not in self.stored or e.func.id in _nested_defs(self.fi))) or \
+            (isinstance(e.func, ast.Attribute) and chain(e.func.value) in ("self", "cls")) or \
+            (isinstance(e.func, ast.Attribute) and isinstance(e.func.value, ast.Name) and self.repo.resolve_class_expr(self.fi.module, e.func.value) is not None)
+        targets = []
+        if follow:
+            try:
+                nd = _nested_defs(self.fi).get(e.func.id) if isinstance(e.func, ast.Name) else None
+                targets = [nd] if nd is not None else self.repo.resolve_call(self.fi, e)
+            except Exception:  # noqa: BLE001
+                targets = []
+        if not targets:
+            if last and last in _ALWAYS_TRUE_CTORS and not awaited:
+                return frozenset({"T"})
+            if last and last[:1].isupper() and not last.isupper() and not awaited:
+                return _OBJ
+            return _ANY
+        out: set = set()
+        for t in targets:
+            decs = [d for d in t.decorator_names() if d not in ("staticmethod", "classmethod")]
+            is_gen = any(isinstance(x, (ast.Yield, ast.YieldFrom)) for x in walk_no_nested(t.node))
+            if "task" in decs and len(decs) == 1 and not awaited:
+                out |= {"T"}              # @task registers the coroutine and returns its Future
+            elif decs:
+                return _ANY
+            elif is_gen or (t.is_async and not awaited):
+                out |= {"T"}              # a generator / coroutine object
+            elif awaited and not t.is_async:
+                return _ANY
+            else:
+                out |= self._summary(t, e, env)
+        return frozenset(out)
+
+    def bind_call(self, call: ast.Call, t: FuncInfo, envs: list) -> tuple[dict, dict] | None:
+        """(parameter -> expression in root terms | None, parameter -> abstract value) for the call `call` to t, joined over the environments envs."""
+        a = t.node.args
+        if any(isinstance(x, ast.Starred) for x in call.args) or any(k.arg is None for k in call.keywords):
+            return None
+        pos = [p.arg for p in a.posonlyargs + a.args]
+        decs = t.decorator_names()
+        exprs: dict[str, ast.AST | None] = {}
+        idx = 0
+        if t.cls is not None and "staticmethod" not in decs and isinstance(call.func, ast.Attribute) and pos:
+            recv = call.func.value
+            if "classmethod" in decs:
+                exprs[pos[0]] = None
+                idx = 1
+            elif chain(recv) in ("self", "cls") or self.repo.resolve_class_expr(self.fi.module, recv) is None:
+                # `super().m()` runs m on the same object
+                exprs[pos[0]] = ast.Name(id="self", ctx=ast.Load()) if isinstance(recv, ast.Call) and chain(recv.func) == "super" else recv
+                idx = 1
+        for x in call.args:
+            if idx >= len(pos):
+                if a.vararg is None:
+                    return None
+                continue
+            exprs[pos[idx]] = x
+            idx += 1
+        kwonly = [p.arg for p in a.kwonlyargs]
+        for k in call.keywords:
+            if k.arg in pos or k.arg in kwonly:
+                exprs[k.arg] = k.value
+            elif a.kwarg is None:
+                return None
+        defaults: dict[str, ast.AST] = {}
+        for p, d in zip(pos[len(pos) - len(a.defaults):], a.defaults):
+            defaults[p] = d
+        for p, d in zip(kwonly, a.kw_defaults):
+            if d is not None:
+                defaults[p] = d
+        bind: dict = {}
+        penv: dict = {}
+        for p in pos + kwonly:
+            if p in exprs and exprs[p] is not None:
+                x = exprs[p]
+                bind[p] = self._root(x)
+                vals = [self.ev(x, dict(env)) for env in envs] or [_ANY]
+                penv[p] = frozenset().union(*vals)
+            elif p in exprs:
+                bind[p] = None
+            elif p in defaults:
+                d = defaults[p]
+                bind[p] = clone(d) if isinstance(d, ast.Constant) else None
+                penv[p] = self.ev(d, {}) if isinstance(d, ast.Constant) else _ANY
+            else:
+                return None
+        for p in ([a.vararg.arg] if a.vararg else []) + ([a.kwarg.arg] if a.kwarg else []):
+            bind[p] = None
+        return bind, penv
+
+    def _summary(self, t: FuncInfo, call: ast.Call, env: dict):
+        if self.depth >= self.MAX_DEPTH or id(t.node) in self.stack:
+            return _ANY
+        b = self.bind_call(call, t, [env])
+        if b is None:
+            return _ANY
+        bind, penv = b
+        key = (id(t.node), id(self.assume), frozenset(penv.items()), tuple(sorted((p, norm(x) if x is not None else "?") for p, x in bind.items())))
+        if key not in self.memo:
+            self.memo[key] = _ANY         # recursion guard
+            try:
+                sub = _Feas(self.ctx, U(self.ctx, t), self.assume, bind=bind, penv=penv, depth=self.depth + 1, memo=self.memo, stack=self.stack)
+                sub.explore()
+                self.memo[key] = frozenset(sub.returns) if sub.returns or self.cfgexit_unreachable(sub) else _ANY
+            except AnalysisError:
+                self.memo[key] = _ANY
+        return self.memo[key]
+
+    @staticmethod
+    def cfgexit_unreachable(sub: "_Feas") -> bool:
+        return sub.cfg.exit not in sub.seen
+
+
+def _pure_read(e: ast.AST) -> bool:
+    """an expression whose value does not change between its assignment to a local and the local's use, as far as the guards here are concerned:
+    attribute / subscript reads, mapping lookups (`.get(k)`), comparisons and boolean combinations of these - no other calls"""
+    for n in ast.walk(e):
+        if isinstance(n, ast.Call):
+            if not (isinstance(n.func, ast.Attribute) and n.func.attr == "get") and chain(n.func) not in ("len", "bool", "isinstance", "getattr", "cast"):
+                return False
+        elif isinstance(n, (ast.Await, ast.Yield, ast.YieldFrom, ast.NamedExpr, ast.Lambda, *_COMPREHENSIONS)):
+            return False
+    return True
+
+
+def _assume_any(*assumes):
+    def f(fact):
+        for a in assumes:
+            v = a(fact)
+            if v is not None:
+                return v
+        return None
+    return f
+
+
+def _context_contradicts(fe: _Feas, site: ast.AST, assume) -> bool:
+    """the short-circuit context of the expression `site` (a and SITE, SITE if t else ..) contradicts the assumption"""
+    if not isinstance(site, ast.expr):
+        return False
+    for f in expr_context_facts(site):
+        g = fact_of(fe._root(f.atom), True)      # noqa: SLF001
+        v = assume(g)
+        if v is not None and (bool(v) if g.pos else not v) != (f.pos == g.pos):
+            return True
+    return False
+
+
+def _unreachable_assuming(ctx: Ctx, fi: FuncInfo, site: ast.AST, assume) -> bool:
+    """True iff no feasible path from the entry of fi evaluates `site` when the assumed atoms have their assumed values."""
+    return _chain_unreachable(ctx, [(fi, site)], assume)
+
+
+def _chain_unreachable(ctx: Ctx, links: list[tuple[FuncInfo, ast.AST]], assume) -> bool:
+    """
+    links = [(f0, call of f1 in f0), (f1, call of f2 in f1), ..., (fk, site)]: the site is only evaluated through this chain of calls.
+    True iff under the assumption one of the links cannot be reached in its function (parameters bound to the caller's arguments).
+    """
+    bind = penv = None
+    memo: dict = {}
+    for i, (fi, node) in enumerate(links):
+        fe = _Feas(ctx, fi, assume, bind=bind, penv=penv, depth=i, memo=memo)
+        try:
+            seen = fe.explore()
+        except (AttributeError, KeyError, TypeError, IndexError, RecursionError) as ex:     # syntax the evaluator was not written for: no verdict
+            raise AnalysisError(f"undecided: cannot evaluate {fi.qualname} ({type(ex).__name__}: {ex})") from ex
+        envs = [env for n in fe.cfg.nodes_for(node) for env in seen.get(n, {}).values()]
+        if not envs:
+            return True
+        if _context_contradicts(fe, node, assume):
+            return True
+        if i + 1 < len(links):
+            call = node if isinstance(node, ast.Call) else None
+            b = fe.bind_call(call, links[i + 1][0], envs) if call is not None else None
+            bind, penv = b if b is not None else ({p: None for p in links[i + 1][0].params()}, {})
+    return False
+
+
+def _helper_targets(ctx: Ctx, fi: FuncInfo, call: ast.Call) -> list[FuncInfo]:
+    """functions of the same object / module that a call in fi runs synchronously as part of fi (`self.m()`, `cls.m()`, `Class.m()`, `f()`; awaited coroutines)"""
+    f = call.func
+    is_super = isinstance(f, ast.Attribute) and isinstance(f.value, ast.Call) and chain(f.value.func) == "super" and not f.value.args
+    if not (isinstance(f, ast.Name) or is_super or (isinstance(f, ast.Attribute) and isinstance(f.value, ast.Name))):
+        return []
+    if isinstance(f, ast.Attribute) and not is_super and f.value.id not in ("self", "cls") and ctx.repo.resolve_class_expr(fi.module, f.value) is None:
+        return []
+    try:
+        nd = _nested_defs(fi).get(f.id) if isinstance(f, ast.Name) else None
+        if nd is None and isinstance(f, ast.Name) and (f.id in fi.params() or local_defs(fi, f.id)):
+            return []                    # a callable held in a parameter / local is not the module function of the same name
+        ts = [nd] if nd is not None else ctx.repo.resolve_call(fi, call)
+    except Exception:  # noqa: BLE001
+        return []
+    out = []
+    for t in ts:
+        decs = [d for d in t.decorator_names() if d not in ("staticmethod", "classmethod")]
+        if decs or t.node is fi.node or t.name == "__init__" or t.qualname == fi.qualname:
+            continue
+        if t.is_async and not _awaited(call):
+            continue
+        out.append(t)
+    return out
+
+
+def _sites_through(ctx: Ctx, fi: FuncInfo, finder, depth: int = 2, _stack: tuple = ()) -> list[list[tuple[FuncInfo, ast.AST]]]:
+    """
+    All places where `finder(function) -> [site nodes]` finds something in fi itself or in a helper that fi runs (same object / module), as call
+    chains [(fi, call), ..., (helper, site)].  A construct that moved out of an anchor function into a helper is still found, and is judged
+    together with the conditions under which the helper is called.
+    """
+    out = [[(fi, s)] for s in finder(fi)]
+    if depth <= 0:
+        return out
+    for c in calls(fi):
+        for t in _helper_targets(ctx, fi, c):
+            if id(t.node) in _stack or t.module is not fi.module:
+                continue
+            for rest in _sites_through(ctx, U(ctx, t), finder, depth - 1, (*_stack, id(fi.node), id(t.node))):
+                out.append([(fi, c), *rest])
+    return out
+
+
+# ----------------------------------------------------------------------------------- literal tables: loops over dispatch tables are unrolled
+def _literal_rows(ctx: Ctx, fi: FuncInfo, it: ast.AST, _depth: int = 0) -> list[ast.AST] | None:
+    """
+    The rows that iterating over `it` yields when `it` is a display written in the source: a tuple / list display (also through a single-assignment
+    local, a class attribute or a module constant), `{..}.items() / .values() / .keys()`, `zip(display, display)`, `enumerate(display)`,
+    `list(..)/tuple(..)` of these.  None when it is anything else.
+    """
+    if _depth > 4:
+        return None
+    it = strip_cast(it)
+    if isinstance(it, ast.Name):
+        d = single_def(fi, it.id)
+        if d is not None and d[1] is None:
+            return _literal_rows(ctx, fi, d[0], _depth + 1)
+        if not local_defs(fi, it.id) and it.id not in fi.params():
+            r = ctx.repo.resolve_name(fi.module, it.id)
+            if isinstance(r, tuple) and r[0] == "const" and r[1] is fi.module:
+                return _literal_rows(ctx, fi, r[2], _depth + 1)
+        return None
+    if isinstance(it, ast.Attribute) and isinstance(it.value, ast.Name) and fi.cls is not None and \
+            (it.value.id in ("self", "cls") or it.value.id in [k.name for k in fi.cls.mro()]):
+        for k in fi.cls.mro():
+            if it.attr in k.attrs:
+                # a class-level table; an instance attribute of the same name assigned anywhere would shadow it
+                if any(stores(m, f"self.{it.attr}") for kk in [fi.cls, *fi.cls.all_subclasses(), *fi.cls.mro()] for m in kk.methods.values()):
+                    return None
+                return _literal_rows(ctx, fi, k.attrs[it.attr], _depth + 1)
+        return None
+    if isinstance(it, (ast.Tuple, ast.List)):
+        return None if any(isinstance(e, ast.Starred) for e in it.elts) else list(it.elts)
+    if isinstance(it, ast.Dict):
+        return None if any(k is None for k in it.keys) else list(it.keys)
+    if isinstance(it, ast.Call) and not it.keywords:
+        fn = chain(it.func)
+        if fn in ("list", "tuple", "iter", "reversed") and len(it.args) == 1:
+            rows = _literal_rows(ctx, fi, it.args[0], _depth + 1)
+            return rows[::-1] if rows is not None and fn == "reversed" else rows
+        if fn == "zip" and it.args:
+            cols = [_literal_rows(ctx, fi, a, _depth + 1) for a in it.args]
+            if all(c is not None for c in cols) and len({len(c) for c in cols}) == 1:
+                return [ast.Tuple(elts=list(r), ctx=ast.Load()) for r in zip(*cols)]
+            return None
+        if fn == "enumerate" and len(it.args) == 1:
+            rows = _literal_rows(ctx, fi, it.args[0], _depth + 1)
+            return None if rows is None else [ast.Tuple(elts=[ast.Constant(value=i), r], ctx=ast.Load()) for i, r in enumerate(rows)]
+        if isinstance(it.func, ast.Attribute) and it.func.attr in ("items", "values", "keys") and not it.args:
+            base = strip_cast(it.func.value)
+            if isinstance(base, ast.Name):
+                d = single_def(fi, base.id)
+                base = strip_cast(d[0]) if d is not None and d[1] is None else base
+            if isinstance(base, ast.Dict) and not any(k is None for k in base.keys):
+                if it.func.attr == "keys":
+                    return list(base.keys)
+                if it.func.attr == "values":
+                    return list(base.values)
+                return [ast.Tuple(elts=[k, v], ctx=ast.Load()) for k, v in zip(base.keys, base.values)]
+    return None
+
+
+def _destructure(target: ast.AST, row: ast.AST, out: dict) -> bool:
+    if isinstance(target, ast.Name):
+        out[target.id] = row
+        return True
+    if isinstance(target, (ast.Tuple, ast.List)) and isinstance(row, (ast.Tuple, ast.List)) and len(target.elts) == len(row.elts) \
+            and not any(isinstance(e, ast.Starred) for e in [*target.elts, *row.elts]):
+        return all(_destructure(t, r, out) for t, r in zip(target.elts, row.elts))
+    return False
+
+
+def _row_value_ok(e: ast.AST) -> bool:
+    """a table cell may be substituted for its loop variable when evaluating it has no effect: names, attribute reads, constants, displays of these"""
+    return all(isinstance(n, (ast.Name, ast.Attribute, ast.Constant, ast.Tuple, ast.List, ast.expr_context)) for n in ast.walk(e))
+
+
+class _SubstFold(ast.NodeTransformer):
+    """replace loop variables by their table cell and fold what becomes constant: getattr(x, "a") -> x.a, "a" + "b", f"remove_{'relay'}", {..}["k"], (..)[0]"""
+
+    def __init__(self, mapping: dict[str, ast.AST]) -> None:
+        self.mapping = mapping
+
+    def visit_Name(self, n: ast.Name):
+        if isinstance(n.ctx, ast.Load) and n.id in self.mapping:
+            return ast.copy_location(clone(self.mapping[n.id]), n)
+        return n
+
+    def visit_Call(self, n: ast.Call):
+        self.generic_visit(n)
+        if chain(n.func) == "getattr" and len(n.args) == 2 and not n.keywords and isinstance(n.args[1], ast.Constant) and isinstance(n.args[1].value, str) \
+                and n.args[1].value.isidentifier():
+            return ast.copy_location(ast.Attribute(value=n.args[0], attr=n.args[1].value, ctx=ast.Load()), n)
+        if isinstance(n.func, ast.Attribute) and n.func.attr == "get" and isinstance(n.func.value, ast.Dict) and n.args and isinstance(n.args[0], ast.Constant):
+            for k, v in zip(n.func.value.keys, n.func.value.values):
+                if isinstance(k, ast.Constant) and k.value == n.args[0].value:
+                    return v
+        if isinstance(n.func, ast.Attribute) and n.func.attr == "format" and isinstance(n.func.value, ast.Constant) and isinstance(n.func.value.value, str) \
+                and not n.keywords and all(isinstance(a, ast.Constant) for a in n.args):
+            try:
+                return ast.copy_location(ast.Constant(value=n.func.value.value.format(*[a.value for a in n.args])), n)
+            except Exception:  # noqa: BLE001
+                return n
+        return n
+
+    def visit_BinOp(self, n: ast.BinOp):
+        self.generic_visit(n)
+        if isinstance(n.left, ast.Constant) and isinstance(n.right, ast.Constant) and isinstance(n.left.value, str):
+            if isinstance(n.op, ast.Add) and isinstance(n.right.value, str):
+                return ast.copy_location(ast.Constant(value=n.left.value + n.right.value), n)
+            if isinstance(n.op, ast.Mod) and isinstance(n.right.value, (str, int)):
+                try:
+                    return ast.copy_location(ast.Constant(value=n.left.value % n.right.value), n)
+                except Exception:  # noqa: BLE001
+                    return n
+        return n
+
+    def visit_JoinedStr(self, n: ast.JoinedStr):
+        self.generic_visit(n)
+        parts = []
+        for v in n.values:
+            if isinstance(v, ast.Constant) and isinstance(v.value, str):
+                parts.append(v.value)
+            elif isinstance(v, ast.FormattedValue) and v.conversion == -1 and v.format_spec is None and isinstance(v.value, ast.Constant) \
+                    and isinstance(v.value.value, (str, int)):
+                parts.append(str(v.value.value))
+            else:
+                return n
+        return ast.copy_location(ast.Constant(value="".join(parts)), n)
+
+    def visit_Subscript(self, n: ast.Subscript):
+        self.generic_visit(n)
+        if isinstance(n.ctx, ast.Load) and isinstance(n.slice, ast.Constant):
+            if isinstance(n.value, ast.Dict):
+                for k, v in zip(n.value.keys, n.value.values):
+                    if isinstance(k, ast.Constant) and k.value == n.slice.value:
+                        return v
+            if isinstance(n.value, (ast.Tuple, ast.List)) and isinstance(n.slice.value, int) and not any(isinstance(e, ast.Starred) for e in n.value.elts) \
+                    and -len(n.value.elts) <= n.slice.value < len(n.value.elts):
+                return n.value.elts[n.slice.value]
+        return n
+
+    def visit_Expr(self, n: ast.Expr):
+        self.generic_visit(n)
+        c = n.value
+        if isinstance(c, ast.Call) and chain(c.func) == "setattr" and len(c.args) == 3 and not c.keywords and isinstance(c.args[1], ast.Constant) \
+                and isinstance(c.args[1].value, str) and c.args[1].value.isidentifier():
+            return ast.copy_location(ast.Assign(targets=[ast.Attribute(value=c.args[0], attr=c.args[1].value, ctx=ast.Store())], value=c.args[2]), n)
+        return n
+
+
+def _instantiate(node, mapping: dict[str, ast.AST]):
+    return _SubstFold(mapping).visit(clone(node))
+
+
+def _rebinds(nodes: list[ast.AST], names: set[str]) -> bool:
+    return any(isinstance(x, ast.Name) and isinstance(x.ctx, (ast.Store, ast.Del)) and x.id in names for s in nodes for x in ast.walk(s))
+
+
+def _loop_jumps(body: list[ast.stmt]) -> bool:
+    """a break / continue that belongs to the loop whose body this is"""
+    stack = list(body)
+    while stack:
+        n = stack.pop()
+        if isinstance(n, (ast.Break, ast.Continue)):
+            return True
+        if isinstance(n, (ast.For, ast.AsyncFor, ast.While)):
+            stack.extend(n.orelse)
+            continue
+        if isinstance(n, (ast.FunctionDef, ast.AsyncFunctionDef, ast.ClassDef, ast.Lambda)):
+            continue
+        stack.extend(ast.iter_child_nodes(n))
+    return False
+
+
+class _Unroller(ast.NodeTransformer):
+    def __init__(self, ctx: Ctx, fi: FuncInfo) -> None:
+        self.ctx, self.fi = ctx, fi
+        self.changed = False
+
+    def visit_FunctionDef(self, n):
+        if n is not self.root:
+            return n
+        self.generic_visit(n)
+        return n
+    visit_AsyncFunctionDef = visit_FunctionDef
+
+    def visit_Lambda(self, n):
+        return n
+
+    def run(self, root):
+        self.root = root
+        return self.visit(root)
+
+    def _maps(self, target: ast.AST, it: ast.AST, scope: list[ast.AST]) -> list[dict] | None:
+        rows = _literal_rows(self.ctx, self.fi, it)
+        if rows is None or not rows or len(rows) > 16:
+            return None
+        maps = []
+        for r in rows:
+            m: dict = {}
+            if not _destructure(target, r, m) or not all(_row_value_ok(v) for v in m.values()):
+                return None
+            maps.append(m)
+        if _rebinds(scope, set(maps[0])):
+            return None
+        return maps
+
+    # ---- pipelines: a collection that is only built from displays / comprehensions and then iterated once is iterated where it is built
+    def _pieces(self, it: ast.AST, depth: int = 0) -> list[tuple[list[ast.comprehension], ast.AST]] | None:
+        """
+        The elements that iterating over `it` yields, as (generators, element expression) pieces in order, when `it` is assembled in the source from
+        displays and comprehensions: `[e for ..]`, `[a, *b]`, `a + b`, chain(a, b), list(a), or a local that is only built by `L = ..`, `L += ..`,
+        `L.extend(..)`, `L.append(x)` (the latter also inside plain for-loops) and used nowhere else.  None for anything else (e.g. a table attribute).
+        """
+        if depth > 4:
+            return None
+        it = strip_cast(it)
+        if isinstance(it, (ast.ListComp, ast.GeneratorExp)):
+            return None if any(g.is_async for g in it.generators) else [(list(it.generators), it.elt)]
+        if isinstance(it, (ast.List, ast.Tuple)):
+            out: list = []
+            for e in it.elts:
+                if isinstance(e, ast.Starred):
+                    sub = self._pieces(e.value, depth + 1)
+                    if sub is None:
+                        return None
+                    out += sub
+                else:
+                    out.append(([], e))
+            return out
+        if isinstance(it, ast.BinOp) and isinstance(it.op, ast.Add):
+            l, r = self._pieces(it.left, depth + 1), self._pieces(it.right, depth + 1)
+            return None if l is None or r is None else l + r
+        if isinstance(it, ast.Call) and not it.keywords and chain(it.func) in ("chain", "itertools.chain", "list", "tuple", "iter") and it.args:
+            if chain(it.func) in ("list", "tuple", "iter") and len(it.args) != 1:
+                return None
+            out = []
+            for a in it.args:
+                sub = self._pieces(a.value if isinstance(a, ast.Starred) else a, depth + 1)
+                if sub is None:
+                    return None
+                out += sub
+            return out
+        if isinstance(it, ast.Name) and it.id not in self.fi.params():
+            return self._built_local(it, depth)
+        return None
+
+    def _built_local(self, use: ast.Name, depth: int) -> list | None:
+        name = use.id
+        mentions = [x for x in ast.walk(self.root) if isinstance(x, ast.Name) and x.id == name and x is not use]
+        builders: list[tuple[int, list, ast.AST]] = []
+        for x in mentions:
+            st = enclosing_stmt(x)
+            gens: list[ast.comprehension] = []
+            ok = True
+            for a in ancestors(st):
+                if a is self.root:
+                    break
+                if isinstance(a, ast.For) and not a.orelse and not _loop_jumps(a.body):
+                    gens.insert(0, ast.comprehension(target=a.target, iter=a.iter, ifs=[], is_async=0))
+                elif not isinstance(a, ast.With):
+                    ok = False
+            if not ok:
+                return None
+            val = None
+            if isinstance(st, (ast.Assign, ast.AnnAssign)) and st.value is not None and (st.targets if isinstance(st, ast.Assign) else [st.target]) == [x]:
+                val = self._pieces(st.value, depth + 1) if not gens else None
+            elif isinstance(st, ast.AugAssign) and st.target is x and isinstance(st.op, ast.Add):
+                val = self._pieces(st.value, depth + 1)
+            elif isinstance(st, ast.Expr) and isinstance(st.value, ast.Call) and isinstance(st.value.func, ast.Attribute) and st.value.func.value is x \
+                    and len(st.value.args) == 1 and not st.value.keywords:
+                if st.value.func.attr == "extend":
+                    val = self._pieces(st.value.args[0], depth + 1)
+                elif st.value.func.attr == "append":
+                    val = [([], st.value.args[0])]
+            if val is None:
+                return None
+            builders.append((st.lineno, gens, val))
+        if not builders or any(b[0] >= getattr(use, "lineno", 0) for b in builders):
+            return None
+        out = []
+        for _, gens, val in sorted(builders, key=lambda b: b[0]):
+            out += [([*gens, *g], e) for g, e in val]
+        return out
+
+    def _fusable(self, target: ast.AST, it: ast.AST, scope: list[ast.AST]) -> list[tuple[list[ast.comprehension], dict]] | None:
+        # only pipelines of tuples that the consumer takes apart again ((callable, key) / (table, remover, key) work lists): that is where a rule
+        # needs to see which callable meets which key; plain element lists stay as they are (a copy may be a deliberate snapshot)
+        if not isinstance(target, (ast.Tuple, ast.List)):
+            return None
+        ps = self._pieces(it)
+        if not ps or len(ps) > 24 or not any(g for g, _ in ps) and not isinstance(strip_cast(it), ast.Name):
+            return None
+        out = []
+        used = {x.id for s in scope for x in ast.walk(s) if isinstance(x, ast.Name)}
+        for gens, e in ps:
+            m: dict = {}
+            if not _destructure(target, e, m) or not all(_row_value_ok(v) for v in m.values()):
+                return None
+            bound = {x.id for g in gens for x in ast.walk(g.target) if isinstance(x, ast.Name)}
+            if bound & (used - set(m)):
+                return None           # a loop variable of the producer would capture a name of the consumer
+            out.append((gens, m))
+        if _rebinds(scope, {k for _, m in out for k in m}):
+            return None
+        return out
+
+    def visit_For(self, n: ast.For):
+        self.generic_visit(n)
+        if n.orelse or _loop_jumps(n.body):
+            return n
+        maps = self._maps(n.target, n.iter, n.body)
+        if maps is None:
+            fused = self._fusable(n.target, n.iter, n.body)
+            if fused is None:
+                return n
+            self.changed = True
+            out = []
+            for gens, m in fused:
+                body = [_instantiate(s, m) for s in n.body]
+                for g in reversed(gens):
+                    g = clone(g)
+                    for cond in reversed(g.ifs):
+                        body = [ast.If(test=cond, body=body, orelse=[])]
+                    body = [ast.For(target=g.target, iter=g.iter, body=body, orelse=[])]
+                    for x in ast.walk(body[0].target):
+                        if isinstance(x, ast.Name):
+                            x.ctx = ast.Store()
+                out += [ast.copy_location(b, n) for b in body]
+            return out
+        self.changed = True
+        # a local that only lives inside the loop body (assigned there, never mentioned outside the loop) is a different variable in every
+        # iteration: give each unrolled row its own copy so that it stays a single-assignment local
+        inside = {x.id for s in n.body for x in ast.walk(s) if isinstance(x, ast.Name) and isinstance(x.ctx, ast.Store)}
+        within = {id(x) for x in ast.walk(n)}
+        outside = {x.id for x in ast.walk(self.root) if isinstance(x, ast.Name) and id(x) not in within}
+        private = inside - outside - set(maps[0])
+        out = []
+        for i, m in enumerate(maps):
+            for s in n.body:
+                s2 = _instantiate(s, m)
+                for x in ast.walk(s2):
+                    if isinstance(x, ast.Name) and x.id in private:
+                        x.id = f"{x.id}@{i}"
+                out.append(s2)
+        return out
+
+    def _comp(self, n):
+        self.generic_visit(n)
+        g = n.generators[0]
+        if g.ifs or g.is_async:
+            return n
+        if isinstance(n, ast.GeneratorExp) and not isinstance(parent(n), (ast.Call, ast.Starred)):
+            return n
+        scope = [n.elt, *[x for gg in n.generators[1:] for x in (gg.target, gg.iter, *gg.ifs)]]
+        maps = self._maps(g.target, g.iter, scope)
+        if maps is None:
+            fused = self._fusable(g.target, g.iter, scope)
+            if fused is None:
+                return n
+            pieces = []
+            for gens, m in fused:
+                rest = [*[clone(x) for x in gens], *n.generators[1:]]
+                if rest:
+                    inner = ast.ListComp(elt=n.elt, generators=[clone(x) for x in rest])
+                    inner = _instantiate(inner, m)
+                    # the producer's own generators keep their variables: only the consumer's element and later generators are instantiated
+                    for i, x in enumerate(gens):
+                        inner.generators[i] = clone(x)
+                    pieces.append(ast.Starred(value=inner, ctx=ast.Load()))
+                else:
+                    pieces.append(_instantiate(n.elt, m))
+            self.changed = True
+            new = ast.Set(elts=pieces) if isinstance(n, ast.SetComp) else ast.List(elts=pieces, ctx=ast.Load())
+            return ast.copy_location(new, n)
+        pieces = []
+        for m in maps:
+            if len(n.generators) > 1:
+                inner = ast.ListComp(elt=n.elt, generators=n.generators[1:])
+                pieces.append(ast.Starred(value=_instantiate(inner, m), ctx=ast.Load()))
+            else:
+                pieces.append(_instantiate(n.elt, m))
+        self.changed = True
+        new = ast.Set(elts=pieces) if isinstance(n, ast.SetComp) else ast.List(elts=pieces, ctx=ast.Load())
+        return ast.copy_location(new, n)
+
+    visit_ListComp = visit_SetComp = visit_GeneratorExp = _comp
+
+
+def U(ctx: Ctx, fi: FuncInfo) -> FuncInfo:
+    """
+    The function as the rules look at it: loops and comprehensions over a table that is written out in the source (dispatch tuples of
+    (table, remover), attribute-name tuples with getattr/setattr, zip/enumerate/dict.items() of displays) are unrolled row by row, which is
+    what executing them does.  Returns fi itself when there is nothing to unroll.
+    """
+    views = getattr(ctx, "_c11_views", None)
+    if views is None:
+        views = ctx._c11_views = {}      # noqa: SLF001
+    k = id(fi.node)
+    hit = views.get(k)
+    if hit is not None and hit[0] is fi.node:
+        return hit[1]
+    view = fi
+    if any(isinstance(x, (ast.For, *_COMPREHENSIONS)) for x in walk_no_nested(fi.node)):
+        cur = fi
+        for _ in range(4):
+            new = clone(cur.node)
+            set_parents(new)
+            tmp = FuncInfo(fi.name, fi.qualname, new, fi.module, fi.cls)
+            un = _Unroller(ctx, tmp)
+            new = un.run(new)
+            if not un.changed:
+                break
+            ast.fix_missing_locations(new)
+            set_parents(new)
+            cur = view = FuncInfo(fi.name, fi.qualname, new, fi.module, fi.cls)
+            # per-row copies of loop-local aliases (`remover@0 = self.remove_circuit`) are replaced by what they stand for
+            alias = {}
+            for x in walk_no_nested(new):
+                if isinstance(x, ast.Name) and isinstance(x.ctx, ast.Store) and "@" in x.id and x.id not in alias:
+                    d = single_def(view, x.id)
+                    if d is not None and d[1] is None and _row_value_ok(d[0]):
+                        alias[x.id] = d[0]
+            if alias:
+                new = _SubstFold(alias).visit(new)
+                ast.fix_missing_locations(new)
+                set_parents(new)
+                cur = view = FuncInfo(fi.name, fi.qualname, new, fi.module, fi.cls)
+    views[k] = (fi.node, view)
+    return view
+
+
+# ----------------------------------------------------------------------------------- callables handed over as callbacks
+def _nested_defs(fi: FuncInfo) -> dict[str, FuncInfo]:
+    return {g.name: g for g in fi.module.all_functions if g.qualname.rsplit(".", 1)[0] == fi.qualname and g.node is not fi.node}
+
+
+def _callback_targets(ctx: Ctx, fi: FuncInfo, expr: ast.AST, _depth: int = 0) -> list[tuple[FuncInfo, str | None]]:
+    """
+    The functions that run when the callable `expr` (evaluated in fi) is later called with ONE argument, each with the name of the parameter
+    that receives that argument: a nested def, a lambda (analysed as a function), a bound method, functools.partial(f, a, b), or the result of
+    a factory (`self._make_done_callback(name, ignore)` returning any of these).
+    """
+    if _depth > 4 or expr is None:
+        return []
+    expr = resolve(fi, expr)
+    if isinstance(expr, ast.Name):
+        g = _nested_defs(fi).get(expr.id)
+        if g is not None:
+            ps = g.params()
+            return [(g, ps[0] if ps else None)]
+        r = ctx.repo.resolve_name(fi.module, expr.id)
+        if isinstance(r, FuncInfo):
+            ps = r.params()
+            return [(r, ps[0] if ps else None)]
+        return []
+    if isinstance(expr, ast.Lambda):
+        a = expr.args
+        ps = [x.arg for x in a.posonlyargs + a.args]
+        lam = FuncInfo("<lambda>", fi.qualname + ".<lambda>", expr, fi.module, fi.cls)
+        return [(lam, ps[0] if ps else None)]
+    if isinstance(expr, ast.Attribute) and chain(expr.value) in ("self", "cls") and fi.cls is not None:
+        out = []
+        for m in ctx.repo.dispatch(fi.cls, expr.attr):
+            ps = m.params()
+            static = "staticmethod" in m.decorator_names()
+            i = 0 if static else 1
+            out.append((m, ps[i] if len(ps) > i else None))
+        return out
+    if isinstance(expr, ast.Call):
+        if call_name(expr) == "partial" and expr.args:
+            out = []
+            for t, p in _callback_targets(ctx, fi, expr.args[0], _depth + 1):
+                ps = t.params()
+                if p is None or p not in ps:
+                    out.append((t, None))
+                    continue
+                kw = {k.arg for k in expr.keywords}
+                free = [q for q in ps[ps.index(p):] if q not in kw]
+                n = len(expr.args) - 1
+                out.append((t, free[n] if len(free) > n else None))
+            return out
+        out = []
+        for t in _helper_targets(ctx, fi, expr):
+            for r in walk_no_nested(t.node):
+                if isinstance(r, ast.Return) and r.value is not None:
+                    out.extend(_callback_targets(ctx, t, r.value, _depth + 1))
+        return out
+    return []
+
+
+def _is_super_unload(fi: FuncInfo, x: ast.Call) -> bool:
+    return isinstance(x.func, ast.Attribute) and x.func.attr == "unload" and isinstance(x.func.value, ast.Call) and chain(x.func.value.func) == "super"
+
+
+def _performing_calls(ctx: Ctx, fi: FuncInfo, is_step, depth: int = 2, _stack: tuple = ()) -> list[ast.Call]:
+    """
+    Calls in fi that perform a step when they complete normally: the step itself (is_step(fi, call)), or a call to a helper of the same
+    object (awaited when it is a coroutine) in which every normal path performs the step.  `await super().unload()` that moved into
+    `await self._unload_base()` is still found.
+    """
+    out = []
+    for c in calls(fi):
+        if is_step(fi, c):
+            out.append(c)
+        elif depth > 0:
+            ts = [t for t in _helper_targets(ctx, fi, c) if id(t.node) not in _stack]
+            if ts and all(_always_performs(ctx, t, is_step, depth - 1, (*_stack, id(fi.node))) for t in ts):
+                out.append(c)
+    return out
+
+
+def _always_performs(ctx: Ctx, fi: FuncInfo, is_step, depth: int = 1, _stack: tuple = ()) -> bool:
+    v = U(ctx, fi)
+    steps = _performing_calls(ctx, v, is_step, depth, _stack)
+    if not steps:
+        return False
+    cfg = ctx.cfg(v)
+    return cfg.exit not in cfg.reach(cut_nodes=[n for s in steps for n in cfg.nodes_for(s)], follow_exc=False)
+
+
+def _awaited_step(pred):
+    """is_step for steps that are coroutines: the call must be awaited"""
+    return lambda fi, c: pred(fi, c) and _awaited(c)
+
+
 def rule_super_chain(ctx: Ctx) -> None:
     n = 0
     for c in overlay_classes(ctx):
@@ -247,36 +1491,62 @@ def rule_super_chain(ctx: Ctx) -> None:
         if fi is None or c.name == "Overlay":
             continue
         n += 1
+        fi = U(ctx, fi)
         cfg = ctx.cfg(fi)
-        sup = [x for x in calls(fi) if isinstance(x.func, ast.Attribute) and x.func.attr == "unload" and isinstance(x.func.value, ast.Call)
-               and chain(x.func.value.func) == "super"]
-        ok = bool(sup) and all(_awaited(s) for s in sup) and fi.is_async
+        raw = [x for x in calls(fi) if _is_super_unload(fi, x)]
+        sup = _performing_calls(ctx, fi, _awaited_step(_is_super_unload))
+        ok = bool(sup) and all(_awaited(s) for s in raw) and fi.is_async
         sn = [nn for s in sup for nn in cfg.nodes_for(s)]
         ok = ok and cfg.exit not in cfg.reach(cut_nodes=sn, follow_exc=False)
         ctx.check(ok, "super-chain", fi, fi.node, f"{c.name}.unload awaits super().unload() on every normal path",
                   f"{c.name}.unload can finish without (awaiting) super().unload(): listener and tasks of the base classes stay alive")
     ctx.floor("super-chain", n, 5)
-    ou = ctx.repo.method("Overlay", "unload", "ipv8/overlay.py")
+    ou = U(ctx, ctx.repo.method("Overlay", "unload", "ipv8/overlay.py"))
     cfg = ctx.cfg(ou)
-    rl = [x for x in calls(ou, "self.endpoint.remove_listener") if chain(arg(x, 0)) == "self"]
-    st = [x for x in calls(ou, "self.shutdown_task_manager")]
-    ok = bool(rl) and bool(st) and all(_awaited(s) for s in st)
+    rl = _performing_calls(ctx, ou, lambda f, x: rchain(f, x.func) == "self.endpoint.remove_listener" and chain(arg(x, 0)) == "self")
+    st = _performing_calls(ctx, ou, lambda f, x: rchain(f, x.func) == "self.shutdown_task_manager")
+    raw = [x for x in calls(ou, "self.shutdown_task_manager")]
+    ok = bool(rl) and bool(st) and all(_awaited(s) for s in [*st, *raw])
     if ok:
         rn = [nn for r in rl for nn in cfg.nodes_for(r)]
         ok = all(cfg.must_complete(nn, rn) for s in st for nn in cfg.nodes_for(s)) and cfg.exit not in cfg.reach(cut_nodes=[nn for s in st for nn in cfg.nodes_for(s)], follow_exc=False)
     ctx.check(ok, "super-chain", ou, ou.node, "Overlay.unload: remove_listener(self) then await shutdown_task_manager() on every path",
               "Overlay.unload does not stop listening before (or does not) shut its task manager down")
-    cu = ctx.repo.method("Community", "unload", "ipv8/community.py")
-    ok = any(_unloads_every_bootstrapper(cu, x) for x in calls(cu) if isinstance(x.func, ast.Attribute) and x.func.attr == "unload"
-             and not (isinstance(x.func.value, ast.Call) and chain(x.func.value.func) == "super"))
+    cu = U(ctx, ctx.repo.method("Community", "unload", "ipv8/community.py"))
+    ok = False
+    for links in _sites_through(ctx, cu, lambda f: [x for x in calls(U(ctx, f)) if isinstance(x.func, ast.Attribute) and x.func.attr == "unload"
+                                                     and not _is_super_unload(f, x)], depth=1):
+        h, x = links[-1]
+        if _unloads_every_bootstrapper(U(ctx, h), x) and (len(links) == 1 or _unconditional(ctx, cu, links[0][1])):
+            ok = True
     ctx.check(ok, "super-chain", cu, cu.node, "Community.unload unloads every bootstrapper", "bootstrappers are not unloaded")
+
+
+def _unconditional(ctx: Ctx, fi: FuncInfo, node: ast.AST) -> bool:
+    """every normal path through fi evaluates node (and node is not in a short-circuited position of its statement)"""
+    cfg = ctx.cfg(fi)
+    ns = cfg.nodes_for(node)
+    if not ns or cfg.exit in cfg.reach(cut_nodes=ns, follow_exc=False):
+        return False
+    cur = node
+    for a in ancestors(node):
+        if isinstance(a, ast.stmt):
+            break
+        if isinstance(a, (ast.IfExp, ast.Lambda, *_COMPREHENSIONS)) or (isinstance(a, ast.BoolOp) and a.values[0] is not cur):
+            return False
+        cur = a
+    return True
 
 
 def rule_request_cache(ctx: Ctx) -> None:
     n = 0
+
+    def is_shutdown(f: FuncInfo, x: ast.Call) -> bool:
+        return rchain(f, x.func) == "self.request_cache.shutdown"
     for c in overlay_classes(ctx):
         creates = [st for fi in c.methods.values() for st, t in stores(fi, "self.request_cache")
-                   if isinstance(strip_cast(st.value), ast.Call) and chain(strip_cast(st.value).func) == "RequestCache"]
+                   if getattr(st, "value", None) is not None and isinstance(resolve(fi, _stored_value(st, t)), ast.Call)
+                   and chain(resolve(fi, _stored_value(st, t)).func) == "RequestCache"]
         if not creates:
             continue
         n += 1
@@ -290,9 +1560,10 @@ def rule_request_cache(ctx: Ctx) -> None:
                 u = k.methods.get("unload")
                 if u is None:
                     continue
+                u = U(ctx, u)
                 cfg = ctx.cfg(u)
-                sh = [x for x in calls(u, "self.request_cache.shutdown") if _awaited(x)]
-                sup = [x for x in calls(u) if isinstance(x.func, ast.Attribute) and x.func.attr == "unload" and isinstance(x.func.value, ast.Call)]
+                sh = _performing_calls(ctx, u, _awaited_step(is_shutdown))
+                sup = _performing_calls(ctx, u, lambda f, x: isinstance(x.func, ast.Attribute) and x.func.attr == "unload" and isinstance(x.func.value, ast.Call))
                 if sh:
                     shn = [nn for s in sh for nn in cfg.nodes_for(s)]
                     ok = all(cfg.must_complete(nn, shn) for s in sup for nn in cfg.nodes_for(s)) and \
@@ -340,23 +1611,20 @@ def rule_listeners(ctx: Ctx) -> None:
                             for node in ast.walk(st):
                                 if isinstance(node, ast.Attribute) and isinstance(node.ctx, ast.Store) and chain(node.value) == "self":
                                     tgt = node.attr
+                            if tgt is None and isinstance(st, (ast.Assign, ast.AnnAssign)):
+                                # built into a local first: the attribute that later receives that local
+                                held = {x.id for t in (st.targets if isinstance(st, ast.Assign) else [st.target]) for x in ast.walk(t) if isinstance(x, ast.Name)}
+                                for s2, t2 in stores(m, lambda ch: ch.startswith("self.") and ch.count(".") == 1):
+                                    v2 = getattr(s2, "value", None)
+                                    if v2 is not None and held & {x.id for x in ast.walk(v2) if isinstance(x, ast.Name)}:
+                                        tgt = t2.attr
                             users.append((oc, m, tgt))
             ctx.check(bool(users), "listeners", fi, c, f"helper {owner.name} is constructed by an overlay", f"no overlay constructs {owner.name}")
             for oc, m, attr in users:
                 un = oc.lookup("unload")
                 removed = False
                 if un is not None and attr is not None:
-                    for k in calls(un):
-                        if call_name(k) == "remove_listener":
-                            a0 = resolve(un, arg(k, 0))
-                            if chain(a0) == f"self.{attr}" or (isinstance(a0, ast.Call) and chain(a0.func) == "getattr" and len(a0.args) >= 2
-                                                             and chain(a0.args[0]) == "self" and const_value(a0.args[1]) == attr):
-                                removed = True
-                        # or a teardown method of the helper that removes itself
-                        if chain(k.func) and chain(k.func).startswith(f"self.{attr}."):
-                            t = owner.lookup(call_name(k))
-                            if t is not None and any(call_name(q) == "remove_listener" and chain(arg(q, 0)) == "self" for q in calls(t)):
-                                removed = True
+                    removed = bool(_sites_through(ctx, U(ctx, un), lambda f, attr=attr, owner=owner: _listener_removals(U(ctx, f), attr, owner)))
                 ctx.check(removed, "listeners", (un or m).where, f"{owner.name} listener of {oc.name}.{attr}",
                           f"{oc.name}: helper listener self.{attr} ({owner.name}) removed in unload",
                           f"{owner.name} registers itself as endpoint listener on behalf of {oc.name} (via self.{attr}) but {oc.name}.unload never removes it: "
@@ -368,14 +1636,15 @@ def rule_listeners(ctx: Ctx) -> None:
         adds = [m for m in ("add_listener", "add_prefix_listener") if m in c.methods]
         if not adds:
             continue
+
         def receivers(meth: str, name: str):
             f = c.methods.get(meth)
             if f is None:
                 return None
             out = set()
-            for k in calls(f):
-                if call_name(k) == name and chain(k.func) != f"self.{name}":
-                    out.add(norm(k.func.value))
+            for links in _sites_through(ctx, f, lambda g: [k for k in calls(g) if call_name(k) == name and chain(k.func) != f"self.{name}"], depth=1):
+                g, k = links[-1]
+                out.add(_receiver_key(g, k))
             return out
         want = set()
         for a in adds:
@@ -387,52 +1656,138 @@ def rule_listeners(ctx: Ctx) -> None:
                   ": an overlay behind this endpoint stays registered after unload and keeps receiving datagrams")
 
 
-def _releases_resource(ctx: Ctx, fi: FuncInfo) -> list[str]:
+def _receiver_key(g: FuncInfo, k: ast.Call) -> str:
+    """what the call k (in g) is made on, independent of local spelling: `self.endpoint`, or `each:self.interfaces.values()` for the variable of an
+    enclosing loop / comprehension over a collection"""
+    recv = strip_cast(k.func.value)
+    if isinstance(recv, ast.Name):
+        for a in ancestors(k):
+            if isinstance(a, (ast.FunctionDef, ast.AsyncFunctionDef, ast.Lambda)):
+                break
+            gens = [(a.target, a.iter)] if isinstance(a, (ast.For, ast.AsyncFor)) else [(x.target, x.iter) for x in a.generators] if isinstance(a, _COMPREHENSIONS) else []
+            for tgt, it in gens:
+                if isinstance(tgt, ast.Name) and tgt.id == recv.id:
+                    it = resolve(g, it)
+                    while isinstance(it, ast.Call) and isinstance(it.func, ast.Name) and it.func.id in _SNAPSHOT_CTORS and len(it.args) == 1:
+                        it = resolve(g, it.args[0])
+                    return "each:" + (rchain(g, it) or norm(it))
+    return rchain(g, recv) or norm(recv)
+
+
+def _listener_removals(un: FuncInfo, attr: str, owner: ClassInfo) -> list[ast.Call]:
+    """calls in `un` that take the helper object self.<attr> off the endpoint: remove_listener(self.<attr>) or a teardown method of the helper that removes itself"""
     out = []
-    for c in calls(fi):
-        ch = chain(c.func) or ""
-        if call_name(c) == "pop" and any(t in ch for t in ("self.circuits", "self.relay_from_to", "self.exit_sockets")):
-            out.append(ch)
-        if call_name(c) in ("close", "shutdown_task_manager") and not ch.startswith("self.logger"):
-            out.append(ch)
+    for k in calls(un):
+        if call_name(k) == "remove_listener":
+            a0 = resolve(un, arg(k, 0))
+            if chain(a0) == f"self.{attr}" or (isinstance(a0, ast.Call) and chain(a0.func) == "getattr" and len(a0.args) >= 2
+                                             and chain(a0.args[0]) == "self" and const_value(a0.args[1]) == attr):
+                out.append(k)
+        # or a teardown method of the helper that removes itself
+        ch = rchain(un, k.func) or ""
+        if ch.startswith(f"self.{attr}."):
+            t = owner.lookup(call_name(k))
+            if t is not None and any(call_name(q) == "remove_listener" and chain(arg(q, 0)) == "self" for q in calls(t)):
+                out.append(k)
     return out
+
+
+def _releases_resource(ctx: Ctx, fi: FuncInfo) -> list[str]:
+    def direct(f: FuncInfo) -> list[str]:
+        out = []
+        for c in calls(f):
+            ch = rchain(f, c.func) or chain(c.func) or ""
+            if call_name(c) in ("pop", "popitem", "clear") and any(t in ch for t in ("self.circuits", "self.relay_from_to", "self.exit_sockets")):
+                out.append(chain(c.func) or ch)
+            if call_name(c) in ("close", "shutdown_task_manager") and not ch.startswith("self.logger"):
+                out.append(chain(c.func) or ch)
+        return out
+    out = direct(fi)
+    if not out:
+        # the releasing statements may have moved into a helper that the @task method runs
+        for c in calls(fi):
+            for t in _helper_targets(ctx, fi, c):
+                out += direct(t)
+    return out
+
+
+def _escapes(fi: FuncInfo, k: ast.Call) -> bool:
+    """the value of call k is handed to the caller of fi: returned / yielded, alone or as an element of a returned / yielded collection"""
+    _, names, holders = _value_flow(fi, k)
+    top = parent(holders[-1])
+    if isinstance(top, (ast.Return, ast.Yield, ast.YieldFrom)):
+        return True
+    if not names:
+        return False
+    for n in walk_no_nested(fi.node):
+        if isinstance(n, (ast.Return, ast.YieldFrom)) and n.value is not None and _carries(n.value, names):
+            return True
+        if isinstance(n, ast.For) and isinstance(n.target, ast.Name) and _carries(n.iter, names) and \
+                any(isinstance(x, ast.Yield) and chain(x.value) == n.target.id for s in n.body for x in walk_no_nested(s)):
+            return True
+    return False
+
+
+def _flow_awaited(ctx: Ctx, fi: FuncInfo, k: ast.AST) -> bool:
+    """the value of k (a call in fi, or the Await around it) is awaited in fi: directly, in an awaited gather / wait, or through local collections awaited later"""
+    cfg = ctx.cfg(fi)
+    awaited, names, _ = _value_flow(fi, k)
+    if awaited:
+        return True
+    after = cfg.reach([v for kn in cfg.nodes_for(k) for v, lab in kn.succ if lab != "exc"])
+    return any(gn in after for g in _awaits_of_collections(fi, names) for gn in cfg.nodes_for(g))
 
 
 def rule_awaited_release(ctx: Ctx) -> None:
     repo = ctx.repo
     n = 0
+
+    def task_targets(c: ClassInfo, k: ast.Call) -> tuple[list[FuncInfo], list[str]]:
+        ch = chain(k.func) or ""
+        if not ch.startswith("self.") or ch.count(".") != 1:
+            return [], []
+        targets = [t for t in repo.dispatch(c, call_name(k)) if "task" in t.decorator_names()]
+        return targets, sorted({r for t in targets for r in _releases_resource(ctx, t)})
+
     for c in overlay_classes(ctx):
         fi = c.methods.get("unload")
         if fi is None:
             continue
-        cfg = ctx.cfg(fi)
-        for k in calls(fi):
+        fi = U(ctx, fi)
+        for k in _calls_with_lambdas(fi):
             ch = chain(k.func) or ""
-            if not ch.startswith("self.") or ch.count(".") != 1:
-                continue
-            targets = [t for t in repo.dispatch(c, call_name(k)) if "task" in t.decorator_names()]
-            if not targets:
-                continue
-            rel = sorted({r for t in targets for r in _releases_resource(ctx, t)})
-            if not rel:
-                continue
-            n += 1
-            # is the returned future awaited / gathered before super().unload()?
-            # the future flows (through list displays / comprehensions / append / += / copies) into something that is awaited afterwards
-            awaited, names, _ = _value_flow(fi, k)
-            if not awaited:
-                after = cfg.reach([v for kn in cfg.nodes_for(k) for v, lab in kn.succ if lab != "exc"])
-                awaited = any(gn in after for g in _awaits_of_collections(fi, names) for gn in cfg.nodes_for(g))
-            delays = sorted({norm(s.args[0]) for t in targets for s in calls(t, "sleep") if s.args})
-            ctx.check(awaited, "awaited-release", fi, k, f"{c.name}.unload awaits `{ch}` (releases {rel})",
-                      f"{c.name}.unload starts the @task `{ch}` (which releases {rel}" + (f" after sleeping {delays}" if delays else "") +
-                      ") without awaiting it: shutdown_task_manager() cancels it, so the entries and the exit sockets' transports stay open after unload")
-    ctx.floor("awaited-release", n, 3)
+            targets, rel = task_targets(c, k)
+            started: list[tuple[ast.Call, list[FuncInfo], list[str], bool]] = []
+            if targets:
+                if rel:
+                    started.append((k, targets, rel, _flow_awaited(ctx, fi, k)))
+            else:
+                # a helper of the overlay (generator, list builder) that starts the @task removals on behalf of unload and hands their futures back
+                for h in _starter_helpers(ctx, fi, k):
+                    hv = U(ctx, h)
+                    for k2 in calls(hv):
+                        t2, rel2 = task_targets(c, k2)
+                        if not (t2 and rel2):
+                            continue
+                        top = parent(k) if (h.is_async and _awaited(k)) else k
+                        ok = _flow_awaited(ctx, hv, k2) or (_escapes(hv, k2) and _flow_awaited(ctx, fi, top))
+                        started.append((k2, t2, rel2, ok))
+            for k2, t2, rel2, awaited in started:
+                n += 1
+                ch2 = chain(k2.func) or ""
+                delays = sorted({norm(s.args[0]) for t in t2 for s in calls(t, "sleep") if s.args})
+                ctx.check(awaited, "awaited-release", fi, k2, f"{c.name}.unload awaits `{ch2}` (releases {rel2})",
+                          f"{c.name}.unload starts the @task `{ch2}` (which releases {rel2}" + (f" after sleeping {delays}" if delays else "") +
+                          ") without awaiting it: shutdown_task_manager() cancels it, so the entries and the exit sockets' transports stay open after unload")
+    if not (n < 3 and any(f.rule.endswith(".sockets") and "unload" in f.at for f in ctx.findings)):
+        # (a table that unload does not empty at all is reported by `sockets`; the removal that is then missing here is not an analysis failure)
+        ctx.floor("awaited-release", n, 3)
     # a failing release must not abort the rest of unload (request cache shutdown, listener removal, task shutdown)
     for c in overlay_classes(ctx):
         fi = c.methods.get("unload")
         if fi is None:
             continue
+        fi = U(ctx, fi)
         for g in calls(fi, "gather"):
             if not _awaited(g):
                 continue
@@ -443,21 +1798,84 @@ def rule_awaited_release(ctx: Ctx) -> None:
                       f"{c.name}.unload awaits gather(...) without return_exceptions=True: one failing release raises out of unload and the overlay stays loaded")
 
 
+def _starter_helpers(ctx: Ctx, fi: FuncInfo, k: ast.Call) -> list[FuncInfo]:
+    """methods of the same object that the call k in fi runs (generators run when their result is consumed; coroutines when awaited); not @task methods"""
+    f = k.func
+    if not (isinstance(f, ast.Attribute) and chain(f.value) in ("self", "cls")) and not isinstance(f, ast.Name):
+        return []
+    try:
+        ts = ctx.repo.resolve_call(fi, k)
+    except Exception:  # noqa: BLE001
+        return []
+    out = []
+    for t in ts:
+        if [d for d in t.decorator_names() if d not in ("staticmethod", "classmethod")] or t.node is fi.node or t.cls is None:
+            continue
+        if t.is_async and not _awaited(k):
+            continue
+        out.append(t)
+    return out
+
+
+def _every_key_sites(ctx: Ctx, fi: FuncInfo, method: str, table: str, keyname: str) -> list[tuple[ast.AST, FuncInfo, ast.Call]]:
+    """
+    Where `self.<method>(key, ..)` is called once for EVERY key of the mapping `table` whenever fi runs: (node in fi, function holding the call, the call).
+    The call stands in fi itself (loop, comprehension, map(lambda ..) / map(self.<method>, ..) over a snapshot of the table), or in a helper of the
+    same object that fi always runs to its end (a generator helper must be consumed where it is called).
+    """
+    out: list[tuple[ast.AST, FuncInfo, ast.Call]] = []
+    for k in _calls_with_lambdas(fi, f"self.{method}"):
+        if _called_for_every_key(fi, k, arg(k, 0, keyname), table):
+            out.append((k, fi, k))
+    for m in calls(fi, "map"):
+        if _mapped_over_every_key(fi, m, method, table):
+            out.append((m, fi, m))
+    for c in calls(fi):
+        for h in _starter_helpers(ctx, fi, c):
+            hv = U(ctx, h)
+            is_gen = any(isinstance(x, (ast.Yield, ast.YieldFrom)) for x in walk_no_nested(hv.node))
+            consumed = not is_gen or _consumed_unconditionally(c) \
+                or (isinstance(parent(c), ast.For) and parent(c).iter is c and not any(isinstance(x, _LOOP_ESCAPES) for s in parent(c).body for x in walk_no_nested(s)))
+            if not consumed or not _unconditional(ctx, fi, c):
+                continue
+            for k in _calls_with_lambdas(hv, f"self.{method}"):
+                if _called_for_every_key(hv, k, arg(k, 0, keyname), table) and _unconditional(ctx, hv, enclosing_loop_or_self(k)):
+                    out.append((c, hv, k))
+    return out
+
+
+def _removes_every_key(ctx: Ctx, un: FuncInfo, remover: str, table: str) -> bool:
+    """`self.<remover>(key, ..)` is started for every key of the mapping `table` whenever un runs: in un itself or in a helper that un always runs"""
+    t = ctx.repo.dispatch(un.cls, remover)
+    pname = t[0].params()[1] if t and len(t[0].params()) > 1 else "circuit_id"
+    return bool(_every_key_sites(ctx, un, remover, table, pname))
+
+
+def enclosing_loop_or_self(k: ast.AST) -> ast.AST:
+    """the outermost loop statement around k inside its function (the whole enumeration must run on every path), or k's own statement"""
+    out = enclosing_stmt(k)
+    for a in ancestors(k):
+        if isinstance(a, (ast.FunctionDef, ast.AsyncFunctionDef, ast.Lambda)):
+            break
+        if isinstance(a, (ast.For, ast.While)):
+            out = a
+    return out
+
+
 def rule_sockets(ctx: Ctx) -> None:
     repo = ctx.repo
     # TunnelExitSocket transports: close() reachable from TunnelCommunity.unload via remove_exit_socket
     tc = repo.cls("TunnelCommunity")
-    un = tc.methods["unload"]
-    res = repo.method("TunnelCommunity", "remove_exit_socket")
-    ok = any(_called_for_every_key(un, k, arg(k, 0, "circuit_id"), "self.exit_sockets") for k in calls(un, "self.remove_exit_socket"))
+    un = U(ctx, tc.methods["unload"])
+    ok = _removes_every_key(ctx, un, "remove_exit_socket", "self.exit_sockets")
     ctx.check(ok, "sockets", un, un.node, "TunnelCommunity.unload removes every exit socket", "exit sockets are not torn down on unload")
     for t, rem in (("self.circuits", "remove_circuit"), ("self.relay_from_to", "remove_relay")):
-        ok = any(_called_for_every_key(un, k, arg(k, 0, "circuit_id"), t) for k in calls(un, f"self.{rem}"))
+        ok = _removes_every_key(ctx, un, rem, t)
         ctx.check(ok, "sockets", un, un.node, f"TunnelCommunity.unload removes every entry of {t}", f"{t} is not emptied on unload")
-    au = repo.method("AttestationCommunity", "unload")
+    au = U(ctx, repo.method("AttestationCommunity", "unload"))
     cfg = ctx.cfg(au)
-    dbc = [k for k in calls(au, "self.database.close")]
-    sup = [x for x in calls(au) if isinstance(x.func, ast.Attribute) and x.func.attr == "unload" and isinstance(x.func.value, ast.Call)]
+    dbc = [links[0][1] for links in _sites_through(ctx, au, lambda f: [k for k in calls(f) if rchain(f, k.func) == "self.database.close"], depth=1)]
+    sup = _performing_calls(ctx, au, lambda f, x: isinstance(x.func, ast.Attribute) and x.func.attr == "unload" and isinstance(x.func.value, ast.Call))
     ok = bool(dbc) and bool(sup) and all(cfg.must_complete(nn, [m for s in sup for m in cfg.nodes_for(s)]) for d in dbc for nn in cfg.nodes_for(d))
     ctx.check(ok, "sockets", au, au.node, "AttestationCommunity closes its database after super().unload()", "attestation database is not closed (or closed while handlers may still run)")
     # every create_datagram_endpoint result is stored and has a close in its owner class
@@ -467,9 +1885,6 @@ def rule_sockets(ctx: Ctx) -> None:
             continue
         n += 1
         owner = fi.cls
-        if owner is None:
-            for f2 in m.all_functions:
-                pass
         closes = []
         k = owner
         if k is not None:
@@ -479,24 +1894,38 @@ def rule_sockets(ctx: Ctx) -> None:
     ctx.floor("sockets", n, 3)
 
 
-def _table_read(fi: FuncInfo, e: ast.AST, _depth: int = 0) -> str | None:
-    """`self.T` when e evaluates to an entry read out of the mapping self.T (`self.T.pop(k..)`, `self.T.get(k..)`, `self.T[k]`, or a local holding only such)."""
+def _table_read(fi: FuncInfo, e: ast.AST, _depth: int = 0, ctx: Ctx | None = None) -> str | None:
+    """`self.T` when e evaluates to an entry read out of the mapping self.T (`self.T.pop(k..)`, `self.T.get(k..)`, `self.T[k]`, a local holding only such,
+    or - when ctx is given - the result of a helper of the same object all of whose returns are such reads of one table)."""
     e = strip_cast(e)
+    if isinstance(e, ast.Await):
+        e = strip_cast(e.value)
+    if ctx is not None and isinstance(e, ast.Call) and _depth < 3 and not (isinstance(e.func, ast.Attribute) and e.func.attr in ("pop", "get")):
+        found: set = set()
+        for t in _helper_targets(ctx, fi, e):
+            rets = [r for r in walk_no_nested(t.node) if isinstance(r, ast.Return)]
+            found |= {_table_read(t, r.value, _depth + 1, ctx) if r.value is not None else None for r in rets} or {None}
+        return next(iter(found)) if len(found) == 1 else None
     if isinstance(e, ast.Call) and isinstance(e.func, ast.Attribute) and e.func.attr in ("pop", "get") and e.args:
-        t = chain(e.func.value)
+        t = rchain(fi, e.func.value)
         return t if t and t.startswith("self.") and t.count(".") == 1 else None
     if isinstance(e, ast.Subscript):
-        t = chain(e.value)
+        t = rchain(fi, e.value)
         return t if t and t.startswith("self.") and t.count(".") == 1 else None
     if isinstance(e, ast.Name) and _depth < 3 and e.id not in fi.params():
-        ts = {_table_read(fi, v, _depth + 1) if v is not None and i is None else None for _, v, i in local_defs(fi, e.id)}
+        ts = {_table_read(fi, v, _depth + 1, ctx) if v is not None and i is None else None for _, v, i in local_defs(fi, e.id)}
         return next(iter(ts)) if len(ts) == 1 else None
     return None
 
 
 def _element_classes(ctx: Ctx, c: ClassInfo, table: str) -> list[ClassInfo]:
     """Classes of the objects stored into the mapping `self.T` (from `self.T[k] = Ctor(...)`, also `self.T[k] = x = Ctor(...)`) anywhere in c's MRO."""
-    out: list[ClassInfo] = []
+    memo = getattr(ctx, "_c11_elem", None)
+    if memo is None:
+        memo = ctx._c11_elem = {}        # noqa: SLF001
+    if (id(c.node), table) in memo:
+        return memo[(id(c.node), table)]
+    out: list[ClassInfo] = memo.setdefault((id(c.node), table), [])
     for k in c.mro():
         for m in k.methods.values():
             for st, _ in stores(m, table + "[]"):
@@ -507,6 +1936,64 @@ def _element_classes(ctx: Ctx, c: ClassInfo, table: str) -> list[ClassInfo]:
                     if e is not None and e not in out:
                         out.append(e)
     return out
+
+
+_RELEASE_METHODS = ("close", "shutdown_task_manager")
+
+
+def _param_released(ctx: Ctx, t: FuncInfo, p: str, _depth: int = 0) -> bool:
+    """the helper t releases the object it receives as parameter p (calls p.close() / p.shutdown_task_manager(), possibly through another helper)"""
+    for k in calls(t):
+        if isinstance(k.func, ast.Attribute) and k.func.attr in _RELEASE_METHODS and rchain(t, k.func.value) == p:
+            return True
+        if _depth < 1:
+            for t2 in _helper_targets(ctx, t, k):
+                b = _simple_binding(t2, k)
+                if any(chain(a) == p and _param_released(ctx, t2, q, _depth + 1) for q, a in b.items()):
+                    return True
+    return False
+
+
+def _simple_binding(t: FuncInfo, call: ast.Call) -> dict[str, ast.AST]:
+    """parameter name -> argument expression for positional / keyword arguments of a call to the method or function t"""
+    a = t.node.args
+    pos = [p.arg for p in a.posonlyargs + a.args]
+    if t.cls is not None and "staticmethod" not in t.decorator_names() and isinstance(call.func, ast.Attribute):
+        pos = pos[1:]
+    out: dict[str, ast.AST] = {}
+    for p, x in zip(pos, call.args):
+        if isinstance(x, ast.Starred):
+            break
+        out[p] = x
+    for k in call.keywords:
+        if k.arg:
+            out[k.arg] = k.value
+    return out
+
+
+def _release_calls(ctx: Ctx, fi: FuncInfo) -> list[tuple[ast.Call, str | None]]:
+    """(call, table) for every call in fi that releases an object: x.close() / x.shutdown_task_manager(), or a helper of the same object that does that to
+    the argument it is given; table = the mapping self.T the object was read out of (None when it is not a table entry)"""
+    out = []
+    for k in calls(fi):
+        if isinstance(k.func, ast.Attribute) and k.func.attr in _RELEASE_METHODS:
+            out.append((k, _table_read(fi, k.func.value, ctx=ctx)))
+            continue
+        for t in _helper_targets(ctx, fi, k):
+            for p, a in _simple_binding(t, k).items():
+                tab = _table_read(fi, a, ctx=ctx)
+                if tab and _param_released(ctx, t, p):
+                    out.append((k, tab))
+    return out
+
+
+def _removal_sites(ctx: Ctx, fi: FuncInfo, t: str) -> list[ast.AST]:
+    """statements / calls in fi that take an entry out of the mapping t: pop / popitem / clear / del, directly or in a helper of the same object"""
+    def direct(f: FuncInfo) -> list[ast.AST]:
+        out: list[ast.AST] = [k for k in calls(f) if isinstance(k.func, ast.Attribute) and k.func.attr in ("pop", "popitem", "clear") and rchain(f, k.func.value) == t]
+        out += [st for st, _ in stores(f, f"{t}[]") if isinstance(st, ast.Delete)]
+        return out
+    return [links[0][1] for links in _sites_through(ctx, fi, direct, depth=1)]
 
 
 def rule_release_window(ctx: Ctx) -> None:
@@ -520,7 +2007,8 @@ def rule_release_window(ctx: Ctx) -> None:
     n = 0
     for c in overlay_classes(ctx):
         for fi in c.methods.values():
-            rel = [(k, _table_read(fi, k.func.value)) for k in calls(fi) if isinstance(k.func, ast.Attribute) and k.func.attr in ("close", "shutdown_task_manager")]
+            fi = U(ctx, fi)
+            rel = _release_calls(ctx, fi)
             tables = sorted({t for _, t in rel if t})
             if not tables:
                 continue
@@ -532,8 +2020,7 @@ def rule_release_window(ctx: Ctx) -> None:
                     continue
                 releases = [k for k, tt in rel if tt == t]
                 rel_nodes = {nn for k in releases for nn in cfg.nodes_for(k)}
-                removals: list[ast.AST] = [k for k in calls(fi) if chain(k.func) in (f"{t}.pop", f"{t}.popitem", f"{t}.clear")]
-                removals += [st for st, _ in stores(fi, f"{t}[]") if isinstance(st, ast.Delete)]
+                removals = _removal_sites(ctx, fi, t)
                 if not removals:
                     continue
                 suspensions = [a for a in walk_no_nested(fi.node) if isinstance(a, (ast.Await, ast.AsyncWith, ast.AsyncFor))
@@ -543,6 +2030,8 @@ def rule_release_window(ctx: Ctx) -> None:
                 for r in removals:
                     after = cfg.reach([v for rn in cfg.nodes_for(r) for v, lab in rn.succ])
                     for a in suspensions:
+                        if any(x is r for x in ast.walk(a)):
+                            continue          # `await self._take(..)`: the await of the removing helper itself completes before the entry is in hand
                         an = [x for x in cfg.nodes_for(a) if x in after and x not in rel_nodes]
                         if an and rel_nodes & cfg.reach([v for x in an for v, lab in x.succ]):
                             bad = (r, a)
@@ -557,16 +2046,129 @@ def rule_release_window(ctx: Ctx) -> None:
     ctx.floor("release-window", n, 1)
 
 
+def _is_own_shutdown(f: FuncInfo, x: ast.Call) -> bool:
+    return rchain(f, x.func) == "self.shutdown_task_manager" and _awaited(x)
+
+
+def _shuts_task_manager_down(ctx: Ctx, fi: FuncInfo, k: ast.Call, elem: list[ClassInfo]) -> bool:
+    """
+    Completing the awaited call k (in fi) has shut down the task manager of the table entry it is applied to: `await x.shutdown_task_manager()`,
+    `await x.m()` where m of every element class awaits self.shutdown_task_manager() on every normal path (TunnelExitSocket.close), or a helper of
+    the overlay that does one of these to the entry it is given on every normal path.
+    """
+    def shuts(attr: str) -> bool:
+        if attr == "shutdown_task_manager":
+            return True
+        ms = [e.lookup(attr) for e in elem]
+        return bool(ms) and all(m is not None and m.is_async and _always_performs(ctx, m, _is_own_shutdown, 4) for m in ms)
+    if call_name(k) in ("register_task", "register_anonymous_task", "replace_task") and chain(k.func) in (f"self.{call_name(k)}",):
+        # the release is handed to the overlay's own task manager as the callable of a task that starts right away
+        delayed = any(kw.arg in ("delay", "interval") for kw in k.keywords)
+        return not delayed and any(isinstance(a, ast.Attribute) and _table_read(fi, a.value, ctx=ctx) and shuts(a.attr) for a in k.args[1:])
+    if not _awaited(k):
+        return False
+    if isinstance(k.func, ast.Attribute) and _table_read(fi, k.func.value, ctx=ctx):
+        return shuts(k.func.attr)
+    for t in _helper_targets(ctx, fi, k):
+        for p, a in _simple_binding(t, k).items():
+            if _table_read(fi, a, ctx=ctx):
+                tv = U(ctx, t)
+                inner = [x for x in calls(tv) if isinstance(x.func, ast.Attribute) and rchain(tv, x.func.value) == p and _awaited(x) and
+                         (x.func.attr == "shutdown_task_manager" or (elem and all(e.lookup(x.func.attr) is not None and
+                                                                                   _always_performs(ctx, e.lookup(x.func.attr), _is_own_shutdown) for e in elem)))]
+                cfg = ctx.cfg(tv)
+                if inner and cfg.exit not in cfg.reach(cut_nodes=[n for x in inner for n in cfg.nodes_for(x)], follow_exc=False):
+                    return True
+    return False
+
+
+def _applies_to_entry_of(ctx: Ctx, fi: FuncInfo, k: ast.Call, t: str) -> bool:
+    """the call k is made on / is given an entry of the table t (receiver, a bound method of it, or an argument)"""
+    if isinstance(k.func, ast.Attribute) and _table_read(fi, k.func.value, ctx=ctx) == t:
+        return True
+    for a in [*k.args, *[kw.value for kw in k.keywords]]:
+        if _table_read(fi, a, ctx=ctx) == t or (isinstance(a, ast.Attribute) and _table_read(fi, a.value, ctx=ctx) == t):
+            return True
+    return False
+
+
+def _hands_entry_to_callers(ctx: Ctx, c: ClassInfo, fi: FuncInfo, t: str) -> bool:
+    """fi is a private helper that returns the entry it took out of t, and it is only called by methods of this class hierarchy (which are checked)"""
+    if not fi.name.startswith("_") or fi.name.startswith("__"):
+        return False
+    rets = [r for r in walk_no_nested(fi.node) if isinstance(r, ast.Return)]
+    if not rets or not all(r.value is not None and _table_read(fi, r.value, ctx=ctx) == t for r in rets):
+        return False
+    family = {id(k.node) for k in [*c.mro(), *c.all_subclasses()]}
+    callers = [f for _, f, _ in ctx.repo.callers_of_name(fi.name)]
+    return bool(callers) and all(f is not None and f.cls is not None and id(f.cls.node) in family for f in callers)
+
+
+def rule_released_on_removal(ctx: Ctx) -> None:
+    """
+    An entry that is taken out of a table of TaskManager objects (TunnelCommunity.exit_sockets) has its task manager shut down by whoever took it out,
+    on every normal path on which there was an entry.  After the removal nothing else can reach the object: unload enumerates the table, and the
+    object's own periodic tasks (TunnelExitSocket registers `_check_tasks` on construction, whether or not the socket was ever enabled) are only
+    cancelled by its shutdown_task_manager().  A path that drops the entry without that leaves a task running after unload has completed.
+    """
+    n = 0
+    for c in overlay_classes(ctx):
+        for fi in c.methods.values():
+            fi = U(ctx, fi)
+            tables = sorted({t for k in calls(fi) if isinstance(k.func, ast.Attribute) and k.func.attr in ("pop", "popitem") for t in [rchain(fi, k.func.value)]
+                             if t and t.startswith("self.") and t.count(".") == 1})
+            for t in tables:
+                elem = _element_classes(ctx, c, t)
+                if not elem or not all(e.is_subclass_of("TaskManager") for e in elem):
+                    continue
+                removals = [r for r in _removal_sites(ctx, fi, t) if isinstance(r, ast.Call)]
+                if not removals:
+                    continue
+                if _hands_entry_to_callers(ctx, c, fi, t):
+                    continue          # a private `take` helper: the entry is judged where the helper is called (the call is a removal site there)
+                n += 1
+                cfg = ctx.cfg(fi)
+                shut = [k for k in calls(fi) if _applies_to_entry_of(ctx, fi, k, t) and _shuts_task_manager_down(ctx, fi, k, elem)]
+                shut_nodes = {nn for k in shut for nn in cfg.nodes_for(k)}
+
+                def present(f, t=t):
+                    # there IS an entry: every read of the table (`self.T.pop(k, None)`, `.get(k)`, `self.T[k]`) yields a (truthy) object
+                    if f.op == "truthy" and _table_read(fi, f.left, ctx=ctx) == t and not isinstance(strip_cast(f.left), ast.Name):
+                        return True
+                    if f.op == "is" and const_value(f.right) is None and _table_read(fi, f.left, ctx=ctx) == t and not isinstance(strip_cast(f.left), ast.Name):
+                        return False
+                    return None
+                fe = _Feas(ctx, fi, present)
+                seen = fe.explore()
+                bad = None
+                for r in removals:
+                    starts = []
+                    for rn in cfg.nodes_for(r):
+                        for env in seen.get(rn, {}).values():
+                            starts += fe._step(rn, env, False)      # noqa: SLF001
+                    after = fe.explore(starts, cut_nodes=shut_nodes, follow_exc=False) if starts else {}
+                    if cfg.exit in after:
+                        bad = r
+                        break
+                ctx.check(bad is None, "released-on-removal", fi, bad or removals[0],
+                          f"{fi.qualname}: an entry taken out of {t} has its task manager shut down on every normal path",
+                          f"{fi.qualname} takes an entry out of {t} (`{norm(bad)[:50]}`) and can return without awaiting its shutdown_task_manager() "
+                          f"(directly or through a method that always does, such as close()): {', '.join(e.name for e in elem)} objects register periodic tasks on "
+                          f"construction, the removed entry is in no table that {c.name}.unload enumerates, so its tasks keep running after unload has completed" if bad else "")
+    ctx.floor("released-on-removal", n, 1)
+
+
 def rule_tracked(ctx: Ctx) -> None:
     repo = ctx.repo
     tm = repo.cls("TaskManager", "ipv8/taskmanager.py")
     n = 0
+    reg = ("register_task", "register_anonymous_task", "replace_task")
     for c in tm.all_subclasses():
         for fi in [f for f in repo.all_functions() if f.cls is c]:
             for k in calls(fi, ["ensure_future", "create_task", "asyncio.ensure_future", "asyncio.create_task"]):
                 n += 1
                 p = parent(k)
-                ok = isinstance(p, ast.Call) and call_name(p) in ("register_task", "register_anonymous_task", "replace_task")
+                ok = isinstance(p, ast.Call) and call_name(p) in reg
                 if not ok:
                     st = enclosing_stmt(k)
                     if isinstance(st, ast.Assign) and isinstance(st.targets[0], ast.Name):
@@ -579,6 +2181,11 @@ def rule_tracked(ctx: Ctx) -> None:
                                 ok = True
                     if isinstance(p, ast.Await):
                         ok = True
+                if not ok:
+                    # the future flows (through local collections) into an await / awaited gather, or into a registration
+                    awaited, names, _ = _value_flow(fi, k)
+                    ok = awaited or bool(_awaits_of_collections(fi, names)) or \
+                        any(call_name(x) in reg and any(_carries(a, names) for a in x.args) for x in calls(fi)) if names or awaited else False
                 ctx.check(ok, "tracked-background-work", fi, k, f"{fi.qualname}: ensure_future result is registered with the task manager or awaited",
                           "a background future is neither registered nor awaited: it survives shutdown_task_manager()")
     ctx.floor("tracked-background-work", n, 2)
@@ -588,12 +2195,21 @@ def rule_tracked(ctx: Ctx) -> None:
     TM = "ipv8/taskmanager.py"
     for rn in ("interval_runner", "delay_runner"):
         fi = repo.func(TM, rn)
-        steps = [k for k in calls(fi) if isinstance(k.func, ast.Name) and k.func.id in fi.params()]
+        steps = []
+        for links in _sites_through(ctx, fi, lambda f: [k for k in calls(f) if isinstance(k.func, ast.Name) and k.func.id in f.params()], depth=1):
+            if len(links) == 1:
+                steps.append(links[-1])
+            else:
+                # the step is called in a helper: it is the scheduled callable only if the runner passes its own parameter on
+                h, k = links[-1]
+                b = _simple_binding(h, links[0][1])
+                if k.func.id in b and chain(b[k.func.id]) in fi.params() and _awaited(links[0][1]):
+                    steps.append(links[-1])
         ctx.anchor(steps, f"call of the scheduled callable in {rn}")
-        for k in steps:
-            awaited, names, holders = _value_flow(fi, k)
-            ok = (awaited and len(holders) == 1) or any(isinstance(a, ast.Await) for a in _awaits_of_collections(fi, names) if len(holders) == 1)
-            ctx.check(ok, "tracked-background-work", fi, k, f"{rn} awaits the scheduled step directly (cancelling the runner cancels the step)",
+        for h, k in steps:
+            awaited, names, holders = _value_flow(h, k)
+            ok = (awaited and len(holders) == 1) or any(isinstance(a, ast.Await) for a in _awaits_of_collections(h, names) if len(holders) == 1)
+            ctx.check(ok, "tracked-background-work", h, k, f"{rn} awaits the scheduled step directly (cancelling the runner cancels the step)",
                       f"{rn} does not await `{norm(k)}` directly (it is wrapped in `{norm(parent(k))[:60]}`): cancelling the registered runner task no longer "
                       "cancels a step that is in flight, so the step finishes - and sends packets - after unload has completed")
     # ... and nowhere in task-manager code is work shielded from cancellation
@@ -609,7 +2225,7 @@ def rule_tracked(ctx: Ctx) -> None:
     ctx.instance("tracked-background-work", TM, f"no asyncio.shield() in {scanned} functions of TaskManager and its subclasses")
 
 
-def _active_means_registered_and_running(ia: FuncInfo) -> bool:
+def _active_means_registered_and_running(ia: FuncInfo, ctx: Ctx | None = None) -> bool:
     """
     Decision table of is_pending_task_active over the two facts it may depend on: the name maps to a task (`_pending_tasks.get(name)` is
     truthy / is not None) and that task is done().  The result must be true exactly for (registered, not done), whatever mix of conditional
@@ -618,8 +2234,22 @@ def _active_means_registered_and_running(ia: FuncInfo) -> bool:
     from ..boolfn import TableEvaluator
     name = ia.params()[1]
 
+    def getter_is_lookup() -> bool:
+        # `self.get_task(name)` is the same lookup when get_task still just returns `self._pending_tasks.get(<its parameter>[, None])`
+        gt = ia.cls.lookup("get_task") if ia.cls is not None else None
+        if gt is None or len(gt.params()) != 2:
+            return False
+        rets = [r for r in walk_no_nested(gt.node) if isinstance(r, ast.Return)]
+        v = strip_cast(rets[0].value) if len(rets) == 1 and rets[0].value is not None else None
+        return isinstance(v, ast.Call) and chain(v.func) == "self._pending_tasks.get" and v.args and chain(v.args[0]) == gt.params()[1] \
+            and (len(v.args) == 1 or const_value(v.args[1]) is None) and not v.keywords
+
     def is_lookup(e: ast.AST) -> bool:
         e = strip_cast(e)
+        if isinstance(e, ast.Subscript) and chain(e.value) == "self._pending_tasks" and chain(e.slice) == name:
+            return True
+        if isinstance(e, ast.Call) and chain(e.func) == "self.get_task" and len(e.args) == 1 and not e.keywords and chain(e.args[0]) == name:
+            return getter_is_lookup()
         return isinstance(e, ast.Call) and chain(e.func) == "self._pending_tasks.get" and not e.keywords and 1 <= len(e.args) <= 2 \
             and chain(e.args[0]) == name and (len(e.args) == 1 or const_value(e.args[1]) is None)
 
@@ -641,11 +2271,21 @@ def _active_means_registered_and_running(ia: FuncInfo) -> bool:
                 return "registered"
             if isinstance(e.ops[0], ast.Is):
                 return "unregistered"
+        if isinstance(e, ast.Compare) and len(e.ops) == 1 and chain(e.left) == name and chain(e.comparators[0]) == "self._pending_tasks":
+            if isinstance(e.ops[0], ast.In):
+                return "registered"
+            if isinstance(e.ops[0], ast.NotIn):
+                return "unregistered"
         return None
 
     def on_effect(s: ast.stmt, env: dict, ev: TableEvaluator) -> None:
         if isinstance(s, ast.With):
             ev._block(s.body, env)      # noqa: SLF001  the lock does not change the result
+        elif isinstance(s, ast.Try) and not s.finalbody and not s.orelse and len(s.handlers) == 1 and chain(s.handlers[0].type) in ("KeyError", "LookupError") \
+                and any(isinstance(x, ast.Subscript) and is_lookup(x) for b in s.body for x in ast.walk(b)) \
+                and not any(isinstance(x, ast.Subscript) and not is_lookup(x) for b in s.body for x in ast.walk(b)):
+            # `try: .. self._pending_tasks[name] .. except KeyError: ..`: the handler runs exactly when the name is not registered
+            ev._block(s.body if env["__atoms__"]["registered"] else s.handlers[0].body, env)      # noqa: SLF001
         elif not isinstance(s, ast.Assert):
             raise AnalysisError(f"undecided: is_pending_task_active contains `{norm(s)[:60]}`; cannot tabulate its result")
 
@@ -656,108 +2296,222 @@ def _active_means_registered_and_running(ia: FuncInfo) -> bool:
                 res = ev.run({"registered": registered, "unregistered": not registered, "done": done})
                 got = ev.truth(res)
             except AnalysisError as e:
-                raise AnalysisError(f"undecided: result of is_pending_task_active for registered={registered} done={done}: {e}") from e
+                # not a plain decision function (e.g. the decision moved into a helper): evaluate it path-sensitively under the same two assumptions
+                got = _active_by_paths(ctx, ia, name, is_lookup, registered, done) if ctx is not None else None
+                if got is None:
+                    raise AnalysisError(f"undecided: result of is_pending_task_active for registered={registered} done={done}: {e}") from e
             if got != (registered and not done):
                 return False
     return True
 
 
-def rule_taskmanager(ctx: Ctx) -> None:
+def _active_by_paths(ctx: Ctx, ia: FuncInfo, name: str, is_lookup, registered: bool, done: bool) -> bool | None:
+    """truthiness of what is_pending_task_active returns when the name is / is not registered and its task is / is not done; None when the paths disagree"""
+    def assume(f):
+        if f.op == "truthy" and is_lookup(f.left):
+            return registered
+        if f.op == "is" and const_value(f.right) is None and is_lookup(f.left):
+            return not registered
+        if f.op == "in" and chain(f.left) == name and chain(f.right) == "self._pending_tasks":
+            return registered
+        if f.op == "truthy" and isinstance(f.left, ast.Call) and isinstance(f.left.func, ast.Attribute) and f.left.func.attr == "done" and not f.left.args \
+                and is_lookup(f.left.func.value):
+            return done
+        return None
+    fe = _Feas(ctx, ia, assume)
+    fe.explore(follow_exc=False)
+    outs = {_is_true(x) for x in fe.returns}
+    return next(iter(outs)) if len(outs) == 1 else None
+
+
+def _in_caller_terms(links: list[tuple[FuncInfo, ast.AST]], e: ast.AST | None) -> ast.AST | None:
+    """the expression e of the last function of a call chain, written in the terms of the first: parameters replaced by the arguments they are bound to"""
+    for i in range(len(links) - 1, 0, -1):
+        if e is None or not isinstance(links[i - 1][1], ast.Call):
+            return e
+        e = strip_cast(e)
+        if isinstance(e, ast.Name):
+            b = _simple_binding(links[i][0], links[i - 1][1])
+            if e.id in b:
+                e = b[e.id]
+    return e
+
+
+def _stored_value(st: ast.stmt, target: ast.AST) -> ast.AST | None:
+    """the expression a (possibly tuple) assignment statement stores into `target`"""
+    v = getattr(st, "value", None)
+    for t in (st.targets if isinstance(st, ast.Assign) else [getattr(st, "target", None)]):
+        if t is target:
+            return v
+        if isinstance(t, (ast.Tuple, ast.List)) and isinstance(v, (ast.Tuple, ast.List)) and len(t.elts) == len(v.elts):
+            for a, b in zip(t.elts, v.elts):
+                if a is target:
+                    return b
+    return v
+
+
+def _locked(links: list[tuple[FuncInfo, ast.AST]], lock: str = "self._task_lock") -> bool:
+    """some link of the call chain sits inside `with <lock>:` (the helper runs while its caller holds the lock)"""
+    return any(isinstance(a, ast.With) and any(rchain(f, i.context_expr) == lock for i in a.items) for f, node in links for a in ancestors(node))
+
+
+def _truthy_assumption(pred, value: bool):
+    """assume: every atom e with pred(e) is truthy (value=True) / falsy (value=False)"""
+    return lambda f: (value if f.op == "truthy" and pred(f.left) else None)
+
+
+def _is_pending_lookup(e: ast.AST) -> bool:
+    e = strip_cast(e)
+    if isinstance(e, ast.Call) and chain(e.func) == "self._pending_tasks.get" and e.args:
+        return True
+    return isinstance(e, ast.Subscript) and chain(e.value) == "self._pending_tasks"
+
+
+def rule_taskmanager(ctx: Ctx) -> None:  # noqa: C901, PLR0912, PLR0915
     repo = ctx.repo
     TM = "ipv8/taskmanager.py"
-    rt = repo.method("TaskManager", "register_task", TM)
+    rt = U(ctx, repo.method("TaskManager", "register_task", TM))
     cfg = ctx.cfg(rt)
-    sts = [s for s, t in stores(rt, "self._pending_tasks[]")]
-    starts = calls(rt, "ensure_future")
+    name = rt.params()[1]
+    shut = _truthy_assumption(lambda e: chain(e) == "self._shutdown", True)
+    not_shutdown = _truthy_assumption(lambda e: chain(e) == "self._shutdown", False)
+    active = _truthy_assumption(lambda e: isinstance(e, ast.Call) and chain(e.func) == "self.is_pending_task_active" and e.args and norm(e.args[0]) == name, True)
+    sts = _sites_through(ctx, rt, lambda f: [s for s, t in stores(f, "self._pending_tasks[]") if not isinstance(s, ast.Delete)])
+    starts = _sites_through(ctx, rt, lambda f: calls(f, ["ensure_future", "create_task"]))
     ctx.anchor(sts, "_pending_tasks[name] = task")
-    for s in [*sts, *starts]:
-        fs = facts_at(cfg, s)
-        not_shut = any(f.op == "truthy" and not f.pos and chain(f.left) == "self._shutdown" for f in fs)
-        not_active = any(f.op == "truthy" and not f.pos and isinstance(f.left, ast.Call) and chain(f.left.func) == "self.is_pending_task_active"
-                         and norm(f.left.args[0]) == rt.params()[1] for f in fs)
-        locked = any(isinstance(a, ast.With) and any(chain(i.context_expr) == "self._task_lock" for i in a.items) for a in ancestors(s))
-        ctx.check(not_shut and not_active and locked, "taskmanager-gates", rt, s, f"`{norm(s)[:50]}` only when not shut down and the name is not active (under the lock)",
+    for links in [*sts, *starts]:
+        f, s = links[-1]
+        not_shut = _chain_unreachable(ctx, links, shut)
+        not_active = _chain_unreachable(ctx, links, active)
+        locked = _locked(links)
+        fs = facts_at(ctx.cfg(f), s)
+        ctx.check(not_shut and not_active and locked, "taskmanager-gates", f, s, f"`{norm(s)[:50]}` only when not shut down and the name is not active (under the lock)",
                   f"a task can be started/registered after shutdown or under a name that is still active (not_shutdown={not_shut} name_free={not_active} locked={locked})",
-                  [str(f) for f in fs])
-    # the active-name branch raises
-    for n in cfg.nodes:
-        if n.kind == "cond" and isinstance(n.ast, ast.Call) and chain(n.ast.func) == "self.is_pending_task_active":
-            r = cfg.reach([v for v, lab in n.succ if lab is True], follow_exc=False)
-            ctx.check(cfg.exit not in r, "taskmanager-gates", rt, n.ast, "registering an active name raises", "registering under an active name is not refused")
+                  [str(x) for x in fs])
+    # the active-name branch raises: while the name is active (and the manager is not shut down) register_task has no normal exit
+    fe = _Feas(ctx, rt, _assume_any(not_shutdown, active))
+    seen = fe.explore()
+    tests = [c for c in calls(rt, "self.is_pending_task_active")] or [rt.node]
+    ctx.check(cfg.exit not in seen, "taskmanager-gates", rt, tests[0], "registering an active name raises", "registering under an active name is not refused")
     # the done-callback may only unregister its own future (a newer task may have taken the name)
-    dcb = [f for f in rt.module.all_functions if f.qualname == "TaskManager.register_task.done_cb"]
+    dcb: list[tuple[FuncInfo, str | None]] = []
+    for links in _sites_through(ctx, rt, lambda f: [c for c in calls(f) if call_name(c) == "add_done_callback" and c.args]):
+        f, c = links[-1]
+        for g, p in _callback_targets(ctx, f, c.args[0]):
+            if not any(g.node is x.node for x, _ in dcb):
+                dcb.append((g, p))
     ctx.anchor(dcb, "done_cb in register_task")
-    cfgd = ctx.cfg(dcb[0])
-    fut = dcb[0].params()[0]
-    for c in calls(dcb[0], "self._pending_tasks.pop"):
-        fs = facts_at(cfgd, c)
-        ok = any(f.op == "is" and f.pos and ((isinstance(f.left, ast.Call) and chain(f.left.func) in ("self._pending_tasks.get",) and norm(f.right) == fut) or
-                                               (isinstance(f.right, ast.Call) and chain(f.right.func) in ("self._pending_tasks.get",) and norm(f.left) == fut) or
-                                               ({norm(f.left), norm(f.right)} == {"self._pending_tasks[name]", fut})) for f in fs)
-        ctx.check(ok, "taskmanager-gates", dcb[0], c, "a finished task unregisters its name only if the name still maps to itself",
-                  "the done-callback pops the task name unconditionally: when a name is cancelled and re-registered before the old task finishes, the old task's "
-                  "callback unregisters the NEW task, which then survives shutdown_task_manager() (e.g. a request-cache timeout firing after unload) and can be duplicated",
-                  [str(f) for f in fs])
+    for g, fut in dcb:
+        def own(f, fut=fut):
+            # `self._pending_tasks.get(name) is future` / `self._pending_tasks[name] is future` (also ==: futures compare by identity) is assumed FALSE
+            if f.op in ("is", "eq") and fut is not None:
+                for a, b in ((f.left, f.right), (f.right, f.left)):
+                    if _is_pending_lookup(a) and norm(b) == fut:
+                        return False
+            return None
+        pops = _sites_through(ctx, g, lambda h: [c for c in calls(h, "self._pending_tasks.pop")] +
+                              [s for s, _ in stores(h, "self._pending_tasks[]") if isinstance(s, ast.Delete)])
+        for links in pops:
+            h, c = links[-1]
+            ok = fut is not None and _chain_unreachable(ctx, links, own)
+            ctx.check(ok, "taskmanager-gates", h, c, "a finished task unregisters its name only if the name still maps to itself",
+                      "the done-callback pops the task name unconditionally: when a name is cancelled and re-registered before the old task finishes, the old task's "
+                      "callback unregisters the NEW task, which then survives shutdown_task_manager() (e.g. a request-cache timeout firing after unload) and can be duplicated",
+                      [str(x) for x in facts_at(ctx.cfg(h), c)])
     # after shutdown a passed-in future is cancelled
-    cancels = [c for c in calls(rt) if call_name(c) == "cancel"]
-    ok = any(any(f.op == "truthy" and f.pos and chain(f.left) == "self._shutdown" for f in facts_at(cfg, c)) for c in cancels)
+    cancels = _sites_through(ctx, rt, lambda f: [c for c in calls(f) if call_name(c) == "cancel"])
+    ok = any(_chain_unreachable(ctx, links, not_shutdown) for links in cancels)
     ctx.check(ok, "taskmanager-gates", rt, rt.node, "a future handed in after shutdown is cancelled", "futures handed to register_task after shutdown keep running")
     ia = repo.method("TaskManager", "is_pending_task_active", TM)
-    ok = _active_means_registered_and_running(ia)
+    ok = _active_means_registered_and_running(ia, ctx)
     ctx.check(ok, "taskmanager-gates", ia, ia.node, "is_pending_task_active = registered and not done", "is_pending_task_active no longer means 'registered and not done'")
     # replace_task
-    rp = repo.method("TaskManager", "replace_task", TM)
-    direct = [c for c in calls(rp, "self.register_task")]
-    nested = [f for f in rp.module.all_functions if f.qualname.startswith("TaskManager.replace_task.")]
-    inner = [(f, c) for f in nested for c in calls(f, "self.register_task")]
-    cbs = [c for c in calls(rp) if call_name(c) == "add_done_callback"]
-    cbname = inner[0][0].name if inner else None
-    direct_cb = [c for c in calls(rp) if chain(c.func) == cbname]
-    ok = not direct and not direct_cb and len(inner) == 1 and len(cbs) == 1 and chain(arg(cbs[0], 0)) == cbname
+    rp = U(ctx, repo.method("TaskManager", "replace_task", TM))
+    pname = rp.params()[1]
+    # (1) nothing that replace_task runs itself registers the new task (also not by calling the callback directly)
+    direct = _sites_through(ctx, rp, lambda f: calls(f, "self.register_task"))
+    # (2) exactly one done-callback, attached to the task that cancel_pending_task(name) returned, and it registers the new task under the same name
+    cbs = [c for c in calls(rp) if call_name(c) == "add_done_callback" and c.args]
+    ok = not direct and len(cbs) == 1
     if ok:
         old = resolve(rp, cbs[0].func.value)
-        ok = isinstance(old, ast.Call) and chain(old.func) == "self.cancel_pending_task" and norm(arg(old, 0)) == rp.params()[1] \
-            and norm(arg(inner[0][1], 0)) == rp.params()[1]
+        ok = isinstance(old, ast.Call) and chain(old.func) == "self.cancel_pending_task" and norm(arg(old, 0)) == pname
+        targets = _callback_targets(ctx, rp, cbs[0].args[0])
+        regs = [(g, links) for g, _ in targets for links in _sites_through(ctx, g, lambda f: calls(f, "self.register_task"))]
+        ok = ok and bool(targets) and len(regs) == len(targets) == 1
+        if ok:
+            g, links = regs[0]
+            a0 = _in_caller_terms(links, arg(links[-1][1], 0))
+            nested_here = g.qualname.startswith(rp.qualname + ".")
+            ok = a0 is not None and (norm(a0) == pname or (not nested_here and isinstance(strip_cast(a0), ast.Name)))
     ctx.check(ok, "taskmanager-gates", rp, rp.node, "replace_task registers the new task only in the done-callback of the cancelled old task",
               "replace_task starts the new task before the old one has finished")
     # shutdown_task_manager
-    sh = repo.method("TaskManager", "shutdown_task_manager", TM)
+    sh = U(ctx, repo.method("TaskManager", "shutdown_task_manager", TM))
     cfgs = ctx.cfg(sh)
-    flag = [s for s, t in stores(sh, "self._shutdown") if const_value(s.value) is True]
-    ca = calls(sh, "self.cancel_all_pending_tasks")
+    flag = [links[0][1] for links in _sites_through(ctx, sh, lambda f: [s for s, t in stores(f, "self._shutdown") if const_value(_stored_value(s, t)) is True], depth=1)]
+    ca = [links[0][1] for links in _sites_through(ctx, sh, lambda f: calls(f, "self.cancel_all_pending_tasks"), depth=1)]
     ok = bool(flag) and bool(ca) and all(cfgs.must_complete(nn, [m for f in flag for m in cfgs.nodes_for(f)]) for c in ca for nn in cfgs.nodes_for(c))
-    g = [c for c in calls(sh, "gather") if _awaited(c)]
-    ctx.check(ok and bool(g), "taskmanager-gates", sh, sh.node, "shutdown: flag set before all tasks are cancelled, cancellation awaited",
+    g = [c for c in calls(sh, ["gather", "wait"]) if _awaited(c)]
+    waited = bool(g) or any(_flow_awaited(ctx, sh, c) for c in ca if isinstance(c, ast.Call))
+    ctx.check(ok and waited, "taskmanager-gates", sh, sh.node, "shutdown: flag set before all tasks are cancelled, cancellation awaited",
               "shutdown cancels tasks before refusing new ones (a cancelled task's callback can register a new task) or does not wait for cancellation")
     cp = repo.method("TaskManager", "cancel_pending_task", TM)
-    ok = any(call_name(c) == "cancel" for c in calls(cp)) and any(chain(c.func) == "self._pending_tasks.pop" for c in calls(cp))
+    ok = bool(_sites_through(ctx, cp, lambda f: [c for c in calls(f) if call_name(c) == "cancel"], depth=1)) and \
+        bool(_sites_through(ctx, cp, lambda f: [c for c in calls(f) if rchain(f, c.func) == "self._pending_tasks.pop"] +
+                            [s for s, _ in stores(f, "self._pending_tasks[]") if isinstance(s, ast.Delete)], depth=1))
     ctx.check(ok, "taskmanager-gates", cp, cp.node, "cancel_pending_task cancels and unregisters the named task", "cancel_pending_task does not cancel")
-    call_all = repo.method("TaskManager", "cancel_all_pending_tasks", TM)
+    call_all = U(ctx, repo.method("TaskManager", "cancel_all_pending_tasks", TM))
     ok = False
-    for k in calls(call_all, "self.cancel_pending_task"):
-        if not _called_for_every_key(call_all, k, arg(k, 0, "name"), "self._pending_tasks"):
-            continue
+    for top, holder, k in _every_key_sites(ctx, call_all, "cancel_pending_task", "self._pending_tasks", "name"):
         # ... and the cancelled futures are what the caller (shutdown_task_manager) gets back to wait for
-        _, names, holders = _value_flow(call_all, k)
+        if holder is not call_all and not _escapes(holder, k):
+            continue
+        _, names, holders = _value_flow(call_all, top)
         rets = [r for r in walk_no_nested(call_all.node) if isinstance(r, ast.Return)]
-        ok = bool(rets) and all(r.value is not None and (any(strip_cast(r.value) is h for h in holders[1:]) or _carries(r.value, names)) for r in rets)
+        ok = ok or (bool(rets) and all(r.value is not None and (any(strip_cast(r.value) is h for h in holders[1:]) or _carries(r.value, names)) for r in rets))
     ctx.check(ok, "taskmanager-gates", call_all, call_all.node, "cancel_all_pending_tasks cancels every registered name", "not every registered task is cancelled at shutdown")
     # delivery re-check
-    dl = repo.method("Endpoint", "_deliver_later", "ipv8/messaging/interfaces/endpoint.py")
-    cfgd = ctx.cfg(dl)
-    for c in ctx.anchor([c for c in calls(dl) if call_name(c) == "on_packet"], "on_packet in _deliver_later"):
-        fs = facts_at(cfgd, c)
-        open_ok = any(f.op == "truthy" and f.pos and isinstance(f.left, ast.Call) and chain(f.left.func) == "self.is_open" for f in fs)
-        # (prefix in map or listener in _listeners): not a single dominating atom; check no path with both false
-        from .c04 import _path_with
-        lst = dl.params()[1]
-        bad = _path_with(cfgd, c, [(f"packet[1][:self.prefixlen] in self._prefix_map", False), (f"{lst} in self._listeners", False)])
-        has = any(n.kind == "cond" and norm(n.ast) == f"{lst} in self._listeners" for n in cfgd.nodes)
-        ctx.check(open_ok and has and not bad, "taskmanager-gates", dl, c, "_deliver_later delivers only to a still-registered listener on an open endpoint",
+    dl = U(ctx, repo.method("Endpoint", "_deliver_later", "ipv8/messaging/interfaces/endpoint.py"))
+    closed = _truthy_assumption(lambda e: isinstance(e, ast.Call) and chain(e.func) == "self.is_open", False)
+
+    def is_registration_test(f) -> str | None:
+        """'prefix' / 'generic' when the fact tests whether the listener is still registered for the packet's prefix / as a generic listener"""
+        if f.op == "in" and chain(f.right) == "self._listeners" and norm(f.left) == lst[0]:
+            return "generic"
+        if f.op == "in" and chain(f.right) == "self._prefix_map":
+            return "prefix"
+        if f.op == "truthy" and isinstance(f.left, ast.Call) and chain(f.left.func) == "self._prefix_map.get":
+            return "prefix"
+        return None
+
+    def unregistered(f):
+        return False if is_registration_test(f) else None
+    deliveries = _sites_through(ctx, dl, lambda f: [c for c in calls(f) if call_name(c) == "on_packet"], depth=1)
+    ctx.anchor(deliveries, "on_packet in _deliver_later")
+    lst = [""]
+    for links in deliveries:
+        h, c = links[-1]
+        # the listener is whatever on_packet is called on, named in the terms of _deliver_later
+        recv = rchain(h, c.func.value)
+        if len(links) > 1 and isinstance(links[0][1], ast.Call):
+            b = _simple_binding(h, links[0][1])
+            recv = rchain(dl, b[recv]) if recv in b else None
+        lst[0] = recv or ""
+        open_ok = _chain_unreachable(ctx, links, closed)
+        # (prefix in map or listener in _listeners): not a single dominating atom; no feasible path to the delivery with both false
+        rechecked = _chain_unreachable(ctx, links, unregistered)
+        scope = [dl, *[f for f, _ in links], *[t for k in calls(dl) for t in _helper_targets(ctx, dl, k)]]
+        has = any(fact_of(x, True).op == "in" and chain(fact_of(x, True).right) == "self._listeners" and isinstance(strip_cast(fact_of(x, True).left), ast.Name)
+                  for f in scope for x in ast.walk(f.node) if isinstance(x, ast.Compare))
+        ctx.check(open_ok and has and rechecked, "taskmanager-gates", h, c, "_deliver_later delivers only to a still-registered listener on an open endpoint",
                   "a packet can be delivered to a listener that was removed in the meantime")
     rl = repo.method("Endpoint", "remove_listener", "ipv8/messaging/interfaces/endpoint.py")
-    ok = any(isinstance(s, ast.Assign) and chain(s.targets[0]) == "self._listeners" for s in walk_no_nested(rl.node)) and \
-        any(isinstance(s, ast.Assign) and chain(s.targets[0]) == "self._prefix_map" for s in walk_no_nested(rl.node))
+
+    def edits(attr: str) -> bool:
+        return bool(_sites_through(ctx, rl, lambda f: [s for s in walk_no_nested(f.node) if isinstance(s, (ast.Assign, ast.AnnAssign)) and
+                                                       any(chain(t) == f"self.{attr}" for t in (s.targets if isinstance(s, ast.Assign) else [s.target]))], depth=1))
+    ok = edits("_listeners") and edits("_prefix_map")
     ctx.check(ok, "taskmanager-gates", rl, rl.node, "remove_listener drops the listener from the generic list and the prefix map", "remove_listener leaves the listener registered")
 
 
@@ -765,9 +2519,10 @@ def run(ctx: Ctx) -> None:
     rule_super_chain(ctx)
     rule_request_cache(ctx)
     rule_listeners(ctx)
-    rule_awaited_release(ctx)
     rule_sockets(ctx)
+    rule_awaited_release(ctx)
     rule_release_window(ctx)
+    rule_released_on_removal(ctx)
     from .c09 import rule_transports_stored
     rule_transports_stored(ctx, "sockets")
     from .c10 import rule_shutdown        # "runs no cache timeout after unload" rests on RequestCache.shutdown's ordering
@@ -840,7 +2595,23 @@ WITNESSES = [
     {"name": "exit sockets removed only when enabled", "file": TC, "rule": "sockets",
      "old": "        for circuit_id in list(self.exit_sockets.keys()):\n            removals.append(",
      "new": "        for circuit_id in list(self.exit_sockets.keys()):\n            if self.exit_sockets[circuit_id].enabled:\n                removals.append("},
+    {"name": "exit socket that was never enabled keeps its task manager", "file": TC, "rule": "released-on-removal",
+     "old": "        if exit_socket:\n            # Close socket\n            if exit_socket.enabled:\n                await exit_socket.close()\n            await exit_socket.shutdown_task_manager()\n",
+     "new": "        if exit_socket and exit_socket.enabled:\n            await exit_socket.close()\n"},
+    {"name": "pex community dropped without unloading it", "file": "ipv8/messaging/anonymization/hidden_services.py", "rule": "released-on-removal",
+     "old": "                        self.register_anonymous_task(\"unload_pex\", pex.unload)\n", "new": ""},
     {"name": "attestation db closed before super", "file": "ipv8/attestation/wallet/community.py", "rule": "sockets",
      "old": "        await super().unload()\n        # Close the database after we stop accepting requests.\n        self.database.close()",
      "new": "        self.database.close()\n        await super().unload()"},
+    # broken twins of refactored shapes (helpers, decision variables, dispatch tables, generators): the shape-independent readings must still fire
+    {'name': 'refusal placeholder is None on both branches (decision variable)', 'rule': 'taskmanager-gates', 'edits': [{'file': 'ipv8/taskmanager.py', 'old': '        with self._task_lock:\n            if self._shutdown:\n                self._logger.warning("Not adding task %s due to shutdown!", str(user_task))\n                if isinstance(user_task, (Task, Future)) and not user_task.done():\n                    user_task.cancel()\n                # We need to return an awaitable in case the caller awaits the output of register_task.\n                return succeed(None)\n\n            if self.is_pending_task_active(name):\n                msg = f"Task already exists: \'{name}\'"\n                raise RuntimeError(msg)\n', 'new': '        with self._task_lock:\n            refusal = None\n            if self._shutdown:\n                self._logger.warning("Not adding task %s due to shutdown!", str(user_task))\n                if isinstance(user_task, (Task, Future)) and not user_task.done():\n                    user_task.cancel()\n                refusal = None\n            if refusal is not None:\n                return refusal\n\n            if self.is_pending_task_active(name):\n                msg = f"Task already exists: \'{name}\'"\n                raise RuntimeError(msg)\n'}]},
+    {'name': 'done-callback built by a factory pops the name unconditionally', 'rule': 'taskmanager-gates', 'edits': [{'file': 'ipv8/taskmanager.py', 'old': '            def done_cb(future: Future) -> None:\n                # Only unregister ourselves: the name may have been taken by a newer task in the meantime.\n                if self._pending_tasks.get(name, None) is future:\n                    self._pending_tasks.pop(name, None)\n                try:\n                    future.result()\n                except CancelledError:\n                    pass\n                except ignore as e:  # type: ignore[misc]\n                    self._logger.exception("Task resulted in error: %s\\n%s", e, "".join(traceback.format_exc()))\n\n            self._pending_tasks[name] = user_task\n            user_task.add_done_callback(done_cb)\n            return user_task\n', 'new': '            self._pending_tasks[name] = user_task\n            user_task.add_done_callback(self._make_done_callback(name, ignore))\n            return user_task\n\n    def _make_done_callback(self, name: Hashable, ignore: tuple) -> Callable:\n        def done_cb(future: Future) -> None:\n            if name in self._pending_tasks:\n                self._pending_tasks.pop(name, None)\n            try:\n                future.result()\n            except CancelledError:\n                pass\n            except ignore as e:  # type: ignore[misc]\n                self._logger.exception("Task resulted in error: %s", e)\n\n        return done_cb\n'}]},
+    {'name': 'admission decided in a helper that admits after shutdown', 'rule': 'taskmanager-gates', 'edits': [{'file': 'ipv8/taskmanager.py', 'old': '        with self._task_lock:\n            if self._shutdown:\n                self._logger.warning("Not adding task %s due to shutdown!", str(user_task))\n                if isinstance(user_task, (Task, Future)) and not user_task.done():\n                    user_task.cancel()\n                # We need to return an awaitable in case the caller awaits the output of register_task.\n                return succeed(None)\n\n            if self.is_pending_task_active(name):\n                msg = f"Task already exists: \'{name}\'"\n                raise RuntimeError(msg)\n', 'new': '        with self._task_lock:\n            admitted, placeholder = self._admit(name, user_task)\n            if not admitted:\n                return placeholder\n'}, {'file': 'ipv8/taskmanager.py', 'old': '    def register_anonymous_task(', 'new': '    def _admit(self, name: Hashable, user_task: Any) -> tuple:\n        try:\n            if self._shutdown:\n                self._logger.warning("Not adding task %s due to shutdown!", str(user_task))\n                return True, succeed(None)\n        finally:\n            pass\n        if self.is_pending_task_active(name):\n            msg = f"Task already exists: \'{name}\'"\n            raise RuntimeError(msg)\n        return True, None\n\n    def register_anonymous_task('}]},
+    {'name': 're-check helper of _deliver_later only looks at is_open', 'rule': 'taskmanager-gates', 'edits': [{'file': 'ipv8/messaging/interfaces/endpoint.py', 'old': '        if self.is_open() and (packet[1][:self.prefixlen] in self._prefix_map or listener in self._listeners):\n            listener.on_packet(packet)\n', 'new': '        if self._still_wanted(packet, listener):\n            listener.on_packet(packet)\n\n    def _still_wanted(self, packet: tuple[Address, bytes], who: EndpointListener) -> bool:\n        try:\n            if not self.is_open():\n                return False\n            return True\n        finally:\n            pass\n'}]},
+    {'name': 'dispatch over kinds leaves the exit sockets out', 'rule': 'sockets', 'edits': [{'file': 'ipv8/messaging/anonymization/community.py', 'old': '        removals = []\n        for circuit_id in list(self.circuits.keys()):\n            removals.append(self.remove_circuit(circuit_id, "unload", remove_now=True, destroy=DESTROY_REASON_SHUTDOWN))\n        for circuit_id in list(self.relay_from_to.keys()):\n            removals.append(self.remove_relay(circuit_id, "unload", remove_now=True, destroy=DESTROY_REASON_SHUTDOWN))\n        for circuit_id in list(self.exit_sockets.keys()):\n            removals.append(self.remove_exit_socket(circuit_id, "unload", remove_now=True,\n                                                    destroy=DESTROY_REASON_SHUTDOWN))\n        # Wait for the removals to finish: shutting down the task manager would cancel them and leave sockets open.\n        # A removal that fails (e.g., its destroy message cannot be sent) must not keep us from unloading.\n        await gather(*removals, return_exceptions=True)\n', 'new': '        removals = []\n        for kind in ("circuit", "relay"):\n            table = {"circuit": self.circuits, "relay": self.relay_from_to, "exit_socket": self.exit_sockets}[kind]\n            remover = getattr(self, f"remove_{kind}")\n            removals += [remover(circuit_id, "unload", remove_now=True, destroy=DESTROY_REASON_SHUTDOWN) for circuit_id in tuple(table)]\n        await gather(*removals, return_exceptions=True)\n'}]},
+    {'name': 'generator of removals is run but its futures are dropped', 'rule': 'awaited-release', 'edits': [{'file': 'ipv8/messaging/anonymization/community.py', 'old': '        removals = []\n        for circuit_id in list(self.circuits.keys()):\n            removals.append(self.remove_circuit(circuit_id, "unload", remove_now=True, destroy=DESTROY_REASON_SHUTDOWN))\n        for circuit_id in list(self.relay_from_to.keys()):\n            removals.append(self.remove_relay(circuit_id, "unload", remove_now=True, destroy=DESTROY_REASON_SHUTDOWN))\n        for circuit_id in list(self.exit_sockets.keys()):\n            removals.append(self.remove_exit_socket(circuit_id, "unload", remove_now=True,\n                                                    destroy=DESTROY_REASON_SHUTDOWN))\n        # Wait for the removals to finish: shutting down the task manager would cancel them and leave sockets open.\n        # A removal that fails (e.g., its destroy message cannot be sent) must not keep us from unloading.\n        await gather(*removals, return_exceptions=True)\n', 'new': '        for _ in self._start_removals():\n            pass\n'}, {'file': 'ipv8/messaging/anonymization/community.py', 'old': '    def get_serializer(self) -> Serializer:', 'new': '    def _start_removals(self):  # noqa: ANN202\n        for circuit_id in list(self.circuits):\n            yield self.remove_circuit(circuit_id, "unload", remove_now=True, destroy=DESTROY_REASON_SHUTDOWN)\n        for circuit_id in list(self.relay_from_to):\n            yield self.remove_relay(circuit_id, "unload", remove_now=True, destroy=DESTROY_REASON_SHUTDOWN)\n        for circuit_id in list(self.exit_sockets):\n            yield self.remove_exit_socket(circuit_id, "unload", remove_now=True, destroy=DESTROY_REASON_SHUTDOWN)\n\n    def get_serializer(self) -> Serializer:'}]},
+    {'name': 'work list of (remover, key) pairs never awaited', 'rule': 'awaited-release', 'edits': [{'file': 'ipv8/messaging/anonymization/community.py', 'old': '        removals = []\n        for circuit_id in list(self.circuits.keys()):\n            removals.append(self.remove_circuit(circuit_id, "unload", remove_now=True, destroy=DESTROY_REASON_SHUTDOWN))\n        for circuit_id in list(self.relay_from_to.keys()):\n            removals.append(self.remove_relay(circuit_id, "unload", remove_now=True, destroy=DESTROY_REASON_SHUTDOWN))\n        for circuit_id in list(self.exit_sockets.keys()):\n            removals.append(self.remove_exit_socket(circuit_id, "unload", remove_now=True,\n                                                    destroy=DESTROY_REASON_SHUTDOWN))\n        # Wait for the removals to finish: shutting down the task manager would cancel them and leave sockets open.\n        # A removal that fails (e.g., its destroy message cannot be sent) must not keep us from unloading.\n        await gather(*removals, return_exceptions=True)\n', 'new': '        pending = [(self.remove_circuit, cid) for cid in list(self.circuits)]\n        pending += [(self.remove_relay, cid) for cid in list(self.relay_from_to)]\n        pending += [(self.remove_exit_socket, cid) for cid in list(self.exit_sockets)]\n        removals = [remover(cid, "unload", remove_now=True, destroy=DESTROY_REASON_SHUTDOWN) for remover, cid in pending]\n        await self.request_cache.shutdown()\n'}]},
+    {'name': 'super().unload() behind a condition in a helper', 'rule': 'super-chain', 'edits': [{'file': 'ipv8/dht/community.py', 'old': '        await self.request_cache.shutdown()\n        await super().unload()', 'new': '        await self.request_cache.shutdown()\n        await self._unload_base()\n\n    async def _unload_base(self) -> None:\n        if self.request_cache is None:\n            await super().unload()'}]},
+    {'name': 'release helper closes only enabled sockets', 'rule': 'released-on-removal', 'edits': [{'file': 'ipv8/messaging/anonymization/community.py', 'old': '        exit_socket = self.exit_sockets.pop(circuit_id, None)\n        if exit_socket:\n            # Close socket\n            if exit_socket.enabled:\n                await exit_socket.close()\n            await exit_socket.shutdown_task_manager()\n        return exit_socket\n', 'new': '        exit_socket = self.exit_sockets.pop(circuit_id, None)\n        if exit_socket:\n            await self._release_exit_socket(exit_socket)\n        return exit_socket\n\n    async def _release_exit_socket(self, exit_socket: TunnelExitSocket, *unused: Any) -> None:\n        # Close socket\n        if exit_socket.enabled:\n            await exit_socket.close()\n'}]},
+    {'name': 'generator helper cancels only some names', 'rule': 'taskmanager-gates', 'edits': [{'file': 'ipv8/taskmanager.py', 'old': '            return [self.cancel_pending_task(name) for name in list(self._pending_tasks.keys())]\n', 'new': '            return list(self._cancel_each())\n\n    def _cancel_each(self):  # noqa: ANN202\n        for name in list(self._pending_tasks.keys()):\n            if isinstance(name, str):\n                yield self.cancel_pending_task(name)\n'}]},
 ]
